@@ -486,3 +486,1652 @@ Theorem holds_all_omitting_lane_and_start_read e1 e2 :
 Proof. shape_tac. Qed.
 Theorem empty_hit_record_read : reads_as_denoted hits_from_yaml hit_row_denote [[]].
 Proof. shape_tac. Qed.
+
+(* ################################################################## WRITER, for every chart in the strict domain
+   (declared columns in ANY order, typed cells, typed metadata) *)
+(* ================================================================== general row machinery *)
+Fixpoint row_map (F : Z -> ytree -> option ytree) (r : row) : option row :=
+  match r with
+  | [] => Some []
+  | (k, v) :: t => match F k v, row_map F t with Some v', Some t' => Some ((k, v') :: t') | _, _ => None end
+  end.
+Lemma row_upd_is_map c g r : row_upd c g r = row_map (fun k v => if k =? c then g v else Some v) r.
+Proof. induction r as [|[k v] t IH]; [reflexivity|]. simpl. rewrite IH. reflexivity. Qed.
+Lemma row_map_bind F G r : row_map F r >>= row_map G = row_map (fun k v => F k v >>= G k) r.
+Proof.
+  induction r as [|[k v] t IH]; [reflexivity|]. simpl.
+  destruct (F k v) as [v'|]; simpl; [|reflexivity].
+  destruct (row_map F t) as [t'|]; simpl in *.
+  - rewrite <- IH. reflexivity.
+  - rewrite <- IH. destruct (G k v'); reflexivity.
+Qed.
+Lemma row_map_total F h r : (forall k v, In (k, v) r -> F k v = Some (h k v)) ->
+  row_map F r = Some (map (fun kv => (fst kv, h (fst kv) (snd kv))) r).
+Proof.
+  induction r as [|[k v] t IH]; intro H; [reflexivity|]. simpl.
+  rewrite (H k v (or_introl eq_refl)). rewrite IH; [reflexivity|]. intros k' v' Hin. apply H. right. exact Hin.
+Qed.
+
+Lemma assoc_In {A} k (l : list (Z * A)) v : assoc k l = Some v -> In (k, v) l.
+Proof.
+  induction l as [|[k' v'] t IH]; simpl; [discriminate|]. destruct (k =? k') eqn:E.
+  - intro H. inversion H; subst. apply Z.eqb_eq in E. subst. left. reflexivity.
+  - intro H. right. apply IH. exact H.
+Qed.
+Lemma memZ_In k l : memZ k l = true <-> In k l.
+Proof.
+  unfold memZ. rewrite existsb_exists. split.
+  - intros [x [Hx E]]. apply Z.eqb_eq in E. subst. exact Hx.
+  - intro H. exists k. split; [exact H|apply Z.eqb_refl].
+Qed.
+Lemma assoc_mem {A} k (l : list (Z * A)) : memZ k (map fst l) = true -> exists v, assoc k l = Some v.
+Proof.
+  induction l as [|[k' v'] t IH]; simpl; [discriminate|]. unfold memZ in *. simpl.
+  destruct (k =? k') eqn:E; simpl; [eauto|exact IH].
+Qed.
+Lemma assoc_notin {A} k (l : list (Z * A)) : memZ k (map fst l) = false -> assoc k l = None.
+Proof.
+  induction l as [|[k' v'] t IH]; simpl; [reflexivity|]. unfold memZ in *. simpl.
+  destruct (k =? k') eqn:E; simpl; [discriminate|exact IH].
+Qed.
+Lemma assoc_app {A} k (l1 l2 : list (Z * A)) :
+  assoc k (l1 ++ l2) = match assoc k l1 with Some v => Some v | None => assoc k l2 end.
+Proof. induction l1 as [|[k' v'] t IH]; simpl; [reflexivity|]. destruct (k =? k'); [reflexivity|exact IH]. Qed.
+
+(* looking a key up after renaming the keys and mapping the cells *)
+Lemma assoc_map_ren (ren : Z -> Z) (h : Z -> ytree -> ytree) (r : row) (k : Z) :
+  (forall k', In k' (map fst r) -> ren k' = ren k -> k' = k) ->
+  assoc (ren k) (map (fun kv => (ren (fst kv), h (fst kv) (snd kv))) r) = option_map (h k) (assoc k r).
+Proof.
+  induction r as [|[k0 v0] t IH]; intro H; [reflexivity|]. simpl.
+  destruct (k =? k0) eqn:E.
+  - apply Z.eqb_eq in E. subst. rewrite Z.eqb_refl. reflexivity.
+  - destruct (ren k =? ren k0) eqn:E2.
+    + apply Z.eqb_eq in E2. symmetry in E2. apply (H k0 (or_introl eq_refl)) in E2. subst. rewrite Z.eqb_refl in E. discriminate.
+    + apply IH. intros k' Hk'. apply H. right. exact Hk'.
+Qed.
+Lemma assoc_map_ren_none (ren : Z -> Z) (h : Z -> ytree -> ytree) (r : row) (K : Z) :
+  (forall k', In k' (map fst r) -> ren k' <> K) ->
+  assoc K (map (fun kv => (ren (fst kv), h (fst kv) (snd kv))) r) = None.
+Proof.
+  induction r as [|[k0 v0] t IH]; intro H; [reflexivity|]. simpl.
+  destruct (K =? ren k0) eqn:E.
+  - apply Z.eqb_eq in E. exfalso. apply (H k0 (or_introl eq_refl)). symmetry. exact E.
+  - apply IH. intros k' Hk'. apply H. right. exact Hk'.
+Qed.
+Lemma nodupZ_NoDup l : nodupZ l = true <-> NoDup l.
+Proof.
+  induction l as [|x t IH]; simpl; [split; [constructor|reflexivity]|]. rewrite andb_true_iff, negb_true_iff. split.
+  - intros [H1 H2]. constructor; [|apply IH; exact H2]. intro Hin. apply memZ_In in Hin. congruence.
+  - intro H. inversion H; subst. split; [|apply IH; assumption].
+    destruct (memZ x t) eqn:E; [apply memZ_In in E; contradiction|reflexivity].
+Qed.
+Lemma nodupZ_map_inj (f : Z -> Z) l : (forall x y, In x l -> In y l -> f x = f y -> x = y) -> nodupZ l = true -> nodupZ (map f l) = true.
+Proof.
+  intros Hinj H. apply nodupZ_NoDup in H. apply nodupZ_NoDup. induction H as [|x t Hx Ht IH]; [constructor|].
+  simpl. constructor.
+  - intro Hin. apply in_map_iff in Hin. destruct Hin as [y [Ey Hy]].
+    assert (y = x) by (apply Hinj; [right; exact Hy|left; reflexivity|exact Ey]). subst. contradiction.
+  - apply IH. intros a b Ha Hb. apply Hinj; right; assumption.
+Qed.
+Lemma listZ_eqb_eq a b : listZ_eqb a b = true -> a = b.
+Proof.
+  revert b. induction a as [|x a IH]; destruct b as [|y b]; simpl; intro H; try discriminate; [reflexivity|].
+  apply andb_true_iff in H. destruct H as [H1 H2]. apply Z.eqb_eq in H1. subst. f_equal. apply IH. exact H2.
+Qed.
+
+(* frame-level: a column update is a row-wise update, and keeps the columns *)
+Lemma fr_map_col_rows c g f : fr_has c f = true ->
+  fr_map_col c g f = match omap (row_upd c g) (f_rows f) with Some rs => Some (mkFrame (f_cols f) rs) | None => None end.
+Proof. intro H. unfold fr_map_col. rewrite H. reflexivity. Qed.
+
+(* ================================================================== what frame_okb (strict) gives *)
+Definition row_typed (decl : list (Z * (ytree -> bool))) (cols : list Z) (r : row) : Prop :=
+  map fst r = cols /\ forall k v, In (k, v) r -> exists p, assoc k decl = Some p /\ p v = true.
+Lemma frame_ok_inv decl f : frame_okb decl false f = true ->
+  NoDup (f_cols f) /\ (forall c, In c (map fst decl) -> In c (f_cols f)) /\
+  (forall c, In c (f_cols f) -> has_key c decl = true) /\
+  Forall (row_typed decl (f_cols f)) (f_rows f).
+Proof.
+  unfold frame_okb. intro H. repeat (apply andb_true_iff in H; destruct H as [H ?]).
+  split; [apply nodupZ_NoDup; exact H|]. split.
+  { intros c Hc. rewrite forallb_forall in H2. apply memZ_In. apply H2. exact Hc. }
+  split.
+  { intros c Hc. rewrite forallb_forall in H1. specialize (H1 c Hc). rewrite andb_false_l, orb_false_r in H1. exact H1. }
+  apply Forall_forall. intros r Hr. rewrite forallb_forall in H0. specialize (H0 r Hr).
+  apply andb_true_iff in H0. destruct H0 as [E T]. apply listZ_eqb_eq in E. split; [exact E|].
+  intros k v Hin. rewrite forallb_forall in T. specialize (T (k, v) Hin). cbn [fst snd] in T.
+  assert (Hk: In k (f_cols f)) by (rewrite <- E; apply in_map_iff; exists (k, v); auto).
+  rewrite forallb_forall in H1. specialize (H1 k Hk). rewrite andb_false_l, orb_false_r in H1.
+  unfold has_key in H1. destruct (assoc k decl) as [p|]; [|discriminate]. exists p. auto.
+Qed.
+
+Lemma omap_all2 {A B C} (f : A -> option B) (g : A -> option C) (p : B -> C -> bool) (l : list A) :
+  (forall x, In x l -> exists n n', f x = Some n /\ g x = Some n' /\ p n n' = true) ->
+  exists ns ns', omap f l = Some ns /\ omap g l = Some ns' /\ all2 p ns ns' = true.
+Proof.
+  induction l as [|x l IH]; intro H; [exists [], []; auto|].
+  destruct (H x (or_introl eq_refl)) as [n [n' [E1 [E2 E3]]]].
+  destruct IH as [ns [ns' [F1 [F2 F3]]]]; [intros y Hy; apply H; right; exact Hy|].
+  exists (n :: ns), (n' :: ns'). simpl. rewrite E1, E2, F1, F2, E3, F3. auto.
+Qed.
+Lemma omap_map {A B C} (f : B -> option C) (g : A -> B) l : omap f (map g l) = omap (fun x => f (g x)) l.
+Proof. induction l as [|x l IH]; [reflexivity|]. simpl. rewrite IH. reflexivity. Qed.
+Lemma omap_forallb {A B} (f : A -> option B) (q : A -> bool) l : True -> forallb q l = true -> forallb q l = true.
+Proof. auto. Qed.
+
+(* a record's denotation depends only on what its four keys hold *)
+Lemma note_denote_assoc r1 r2 :
+  assoc K_StartTime r1 = assoc K_StartTime r2 -> assoc K_Lane r1 = assoc K_Lane r2 ->
+  assoc K_KeySounds r1 = assoc K_KeySounds r2 -> assoc K_EndTime r1 = assoc K_EndTime r2 ->
+  note_denote (YMap r1) = note_denote (YMap r2).
+Proof. intros A B C D. unfold note_denote, get_default. rewrite A, B, C, D. reflexivity. Qed.
+Lemma hit_row_denote_assoc r1 r2 :
+  assoc N_offset r1 = assoc N_offset r2 -> assoc N_column r1 = assoc N_column r2 ->
+  assoc N_keysounds r1 = assoc N_keysounds r2 -> hit_row_denote r1 = hit_row_denote r2.
+Proof. intros A B C. unfold hit_row_denote. rewrite A, B, C. reflexivity. Qed.
+
+(* ================================================================== QuaHitList.to_yaml, any column order *)
+Lemma hits_to_yaml_rows_gen f : fr_has N_offset f = true -> fr_has N_column f = true ->
+  hits_to_yaml f
+  = omap (fun r => row_upd N_column plus1 r >>= row_upd N_offset cast_int >>= row_upd N_column cast_int) (f_rows f)
+    >>= fun rs => Some (map (map (fun kv => (ren1 ren_out (fst kv), snd kv))) rs).
+Proof.
+  intros Ho Hc. rewrite <- !omap_bind. unfold hits_to_yaml.
+  rewrite (fr_map_col_rows _ _ f Hc).
+  destruct (omap (row_upd N_column plus1) (f_rows f)) as [r1|]; [|reflexivity]. cbn [bind].
+  rewrite fr_map_col_rows by exact Ho. cbn [f_rows f_cols].
+  destruct (omap (row_upd N_offset cast_int) r1) as [r2|]; [|reflexivity]. cbn [bind].
+  rewrite fr_map_col_rows by exact Hc. cbn [f_rows f_cols].
+  destruct (omap (row_upd N_column cast_int) r2) as [r3|]; reflexivity.
+Qed.
+
+Definition h_hit (k : Z) (v : ytree) : ytree :=
+  if k =? N_offset then YInt (trunc_cell v) else if k =? N_column then YInt (lane_cell v) else v.
+Definition out_row (h : Z -> ytree -> ytree) (r : row) : row :=
+  map (fun kv => (ren1 ren_out (fst kv), h (fst kv) (snd kv))) r.
+
+Lemma cell_ks_is_ks v : cell_ks false v = is_ks v.
+Proof. destruct v; reflexivity. Qed.
+Lemma cell_col_plus1 c : cell_col c = true -> (plus1 c >>= cast_int) = Some (YInt (lane_cell c)).
+Proof. destruct c as [z|q| | | | | |]; try discriminate; reflexivity. Qed.
+Lemma is_num_cast_int o : is_num o = true -> cast_int o = Some (YInt (trunc_cell o)).
+Proof. destruct o; try discriminate; reflexivity. Qed.
+
+Lemma hit_decl_keys k p : assoc k (hit_decl false) = Some p -> k = N_offset \/ k = N_column \/ k = N_keysounds.
+Proof.
+  unfold hit_decl. simpl. destruct (k =? N_offset) eqn:E1; [apply Z.eqb_eq in E1; auto|].
+  destruct (k =? N_column) eqn:E2; [apply Z.eqb_eq in E2; auto|].
+  destruct (k =? N_keysounds) eqn:E3; [apply Z.eqb_eq in E3; auto|discriminate].
+Qed.
+
+Lemma bind_ext {A B} (x : option A) (f g : A -> option B) : (forall a, f a = g a) -> x >>= f = x >>= g.
+Proof. intro H. destruct x; simpl; auto. Qed.
+Lemma row_map_then_upd F c g r :
+  row_map F r >>= row_upd c g = row_map (fun k v => F k v >>= (fun v => if k =? c then g v else Some v)) r.
+Proof. rewrite <- row_map_bind. apply bind_ext. intro a. apply row_upd_is_map. Qed.
+
+Lemma hit_row_pipeline cols r : row_typed (hit_decl false) cols r ->
+  (row_upd N_column plus1 r >>= row_upd N_offset cast_int >>= row_upd N_column cast_int)
+  = Some (map (fun kv => (fst kv, h_hit (fst kv) (snd kv))) r).
+Proof.
+  intros [_ T]. rewrite (row_upd_is_map N_column plus1 r), !row_map_then_upd. apply row_map_total.
+  intros k v Hin. destruct (T k v Hin) as [p [Ep Hp]].
+  destruct (hit_decl_keys k p Ep) as [ -> | [ -> | -> ] ]; cbv in Ep; inversion Ep; subst p; unfold h_hit; cbn [bind Z.eqb N_offset N_column N_keysounds Pos.eqb].
+  - cbn. rewrite (is_num_cast_int v Hp). reflexivity.
+  - cbn. pose proof (cell_col_plus1 v Hp) as E. unfold bind in E. destruct (plus1 v) as [w|]; [|discriminate]. cbn. exact E.
+  - reflexivity.
+Qed.
+
+Lemma ren_out_cases k : k = N_offset \/ k = N_column \/ k = N_keysounds \/ k = N_length \/ k = N_bpm \/ k = N_multiplier \/ k = N_metronome -> True.
+Proof. auto. Qed.
+
+Lemma is_lane_lane_cell v : cell_col v = true -> is_lane (YInt (lane_cell v)) = true.
+Proof.
+  unfold cell_col. destruct (lane_of v) as [l|] eqn:E; [|discriminate]. intro H.
+  rewrite (lane_cell_is_lane_of v l E). exact H.
+Qed.
+
+Lemma hit_decl_o : assoc N_offset (hit_decl false) = Some is_num. Proof. reflexivity. Qed.
+Lemma hit_decl_c : assoc N_column (hit_decl false) = Some cell_col. Proof. reflexivity. Qed.
+Lemma hit_decl_k : assoc N_keysounds (hit_decl false) = Some (cell_ks false). Proof. reflexivity. Qed.
+
+Section HitRow.
+  Variable cols : list Z.
+  Variable r : row.
+  Hypothesis Hnd : NoDup cols.
+  Hypothesis Hall : forall c, In c (map fst (hit_decl false)) -> In c cols.
+  Hypothesis Honly : forall c, In c cols -> has_key c (hit_decl false) = true.
+  Hypothesis Hty : row_typed (hit_decl false) cols r.
+
+  Lemma hit_keys k : In k (map fst r) -> k = N_offset \/ k = N_column \/ k = N_keysounds.
+  Proof.
+    destruct Hty as [E _]. rewrite E. intro H. specialize (Honly k H). unfold has_key in Honly.
+    destruct (assoc k (hit_decl false)) as [p|] eqn:Ep; [|discriminate]. exact (hit_decl_keys k p Ep).
+  Qed.
+  Lemma hit_get k : In k (map fst (hit_decl false)) -> exists v p, assoc k r = Some v /\ assoc k (hit_decl false) = Some p /\ p v = true.
+  Proof.
+    intro H. destruct Hty as [E T]. assert (M: memZ k (map fst r) = true) by (apply memZ_In; rewrite E; apply Hall; exact H).
+    destruct (assoc_mem k r M) as [v Ev]. destruct (T k v (assoc_In _ _ _ Ev)) as [p [Ep Hp]]. exists v, p. auto.
+  Qed.
+
+  Lemma hit_out_row_ok :
+    rec_okb note_keys (YMap (out_row h_hit r)) = true /\
+    exists n n', note_denote (YMap (out_row h_hit r)) = Some n /\ hit_row_denote r = Some n' /\ note_closeb n n' = true.
+  Proof.
+    destruct (hit_get N_offset) as [o [po [Eo [Epo Ho]]]]; [simpl; auto|].
+    destruct (hit_get N_column) as [c [pc [Ec [Epc Hc]]]]; [simpl; auto|].
+    destruct (hit_get N_keysounds) as [k [pk [Ek [Epk Hk]]]]; [simpl; auto|].
+    rewrite hit_decl_o in Epo. rewrite hit_decl_c in Epc. rewrite hit_decl_k in Epk.
+    inversion Epo; inversion Epc; inversion Epk; subst po pc pk. clear Epo Epc Epk.
+    rewrite cell_ks_is_ks in Hk.
+    assert (A1: assoc K_StartTime (out_row h_hit r) = Some (YInt (trunc_cell o))).
+    { change K_StartTime with (ren1 ren_out N_offset). unfold out_row. rewrite assoc_map_ren.
+      - rewrite Eo. reflexivity.
+      - intros k' Hk'. destruct (hit_keys k' Hk') as [ -> | [ -> | -> ] ]; cbv; intro X; try reflexivity; discriminate. }
+    assert (A2: assoc K_Lane (out_row h_hit r) = Some (YInt (lane_cell c))).
+    { change K_Lane with (ren1 ren_out N_column). unfold out_row. rewrite assoc_map_ren.
+      - rewrite Ec. reflexivity.
+      - intros k' Hk'. destruct (hit_keys k' Hk') as [ -> | [ -> | -> ] ]; cbv; intro X; try reflexivity; discriminate. }
+    assert (A3: assoc K_KeySounds (out_row h_hit r) = Some k).
+    { change K_KeySounds with (ren1 ren_out N_keysounds). unfold out_row. rewrite assoc_map_ren.
+      - rewrite Ek. reflexivity.
+      - intros k' Hk'. destruct (hit_keys k' Hk') as [ -> | [ -> | -> ] ]; cbv; intro X; try reflexivity; discriminate. }
+    assert (A4: assoc K_EndTime (out_row h_hit r) = None).
+    { unfold out_row. apply assoc_map_ren_none.
+      intros k' Hk'. destruct (hit_keys k' Hk') as [ -> | [ -> | -> ] ]; cbv; discriminate. }
+    assert (OK: hit_ok (o, c, k) = true) by (unfold hit_ok; rewrite Ho, Hc, Hk; reflexivity).
+    destruct (hit_out_ok (o, c, k) OK) as [_ [n [n' [D1 [D2 D3]]]]].
+    split.
+    - unfold rec_okb. apply andb_true_iff. split.
+      + unfold out_row. rewrite map_map. cbn [fst].
+        rewrite <- (map_map fst (ren1 ren_out)). apply nodupZ_map_inj.
+        * intros x y Hx Hy. destruct (hit_keys x Hx) as [ -> | [ -> | -> ] ]; destruct (hit_keys y Hy) as [ -> | [ -> | -> ] ]; cbv; intro X; try reflexivity; discriminate.
+        * apply nodupZ_NoDup. destruct Hty as [E _]. rewrite E. exact Hnd.
+      + apply forallb_forall. intros [k' v'] Hin. unfold out_row in Hin. apply in_map_iff in Hin.
+        destruct Hin as [[k0 v0] [E Hin]]. cbn [fst snd] in E. inversion E; subst k' v'. clear E.
+        destruct Hty as [_ T]. destruct (T k0 v0 Hin) as [p [Ep Hp]].
+        destruct (hit_decl_keys k0 p Ep) as [ -> | [ -> | -> ] ];
+          [rewrite hit_decl_o in Ep|rewrite hit_decl_c in Ep|rewrite hit_decl_k in Ep]; inversion Ep; subst p; cbn [fst snd].
+        * reflexivity.
+        * change (is_lane (YInt (lane_cell v0)) = true). apply is_lane_lane_cell. exact Hp.
+        * change (is_ks v0 = true). rewrite <- cell_ks_is_ks. exact Hp.
+    - exists n, n'. split; [|split; [|exact D3]].
+      + rewrite <- D1. apply note_denote_assoc; [rewrite A1|rewrite A2|rewrite A3|rewrite A4]; reflexivity.
+      + rewrite <- D2. apply hit_row_denote_assoc; [rewrite Eo|rewrite Ec|rewrite Ek]; reflexivity.
+  Qed.
+End HitRow.
+
+Lemma out_row_split h r :
+  map (fun kv => (ren1 ren_out (fst kv), snd kv)) (map (fun kv => (fst kv, h (fst kv) (snd kv))) r) = out_row h r.
+Proof. unfold out_row. rewrite map_map. reflexivity. Qed.
+
+Definition SectionOK {R} (rowden : R -> option noteD) (src : list R) (allowed : list (Z * (ytree -> bool))) (rows : list row) : Prop :=
+  forallb (rec_okb allowed) (map YMap rows) = true /\
+  exists ns ns', omap note_denote (map YMap rows) = Some ns /\ omap rowden src = Some ns' /\ all2 note_closeb ns ns' = true.
+
+Theorem hits_to_yaml_ok f : frame_okb (hit_decl false) false f = true ->
+  exists rows, hits_to_yaml f = Some rows /\ SectionOK hit_row_denote (f_rows f) note_keys rows.
+Proof.
+  intro H. destruct (frame_ok_inv _ _ H) as [Hnd [Hall [Honly Hrows]]]. rewrite Forall_forall in Hrows.
+  exists (map (out_row h_hit) (f_rows f)). split.
+  - rewrite hits_to_yaml_rows_gen; try (apply memZ_In; apply Hall; simpl; auto).
+    rewrite (omap_some_map _ (fun r => map (fun kv => (fst kv, h_hit (fst kv) (snd kv))) r)).
+    + cbn [bind]. f_equal. rewrite map_map. apply map_ext. intro r. apply out_row_split.
+    + intros r Hr. exact (hit_row_pipeline _ r (Hrows r Hr)).
+  - assert (P: forall r, In r (f_rows f) ->
+               rec_okb note_keys (YMap (out_row h_hit r)) = true /\
+               exists n n', note_denote (YMap (out_row h_hit r)) = Some n /\ hit_row_denote r = Some n' /\ note_closeb n n' = true).
+    { intros r Hr. exact (hit_out_row_ok (f_cols f) r Hnd Hall Honly (Hrows r Hr)). }
+    split.
+    + rewrite map_map. apply forallb_forall. intros y Hy. apply in_map_iff in Hy. destruct Hy as [r [<- Hr]]. apply (P r Hr).
+    + rewrite map_map, omap_map.
+      destruct (omap_all2 (fun r => note_denote (YMap (out_row h_hit r))) hit_row_denote note_closeb (f_rows f)) as [ns [ns' X]].
+      * intros r Hr. apply (P r Hr).
+      * exists ns, ns'. exact X.
+Qed.
+
+(* ================================================================== QuaHoldList.to_yaml, any column order *)
+Lemma omap_Some {A B} (g : A -> B) l : omap (fun x => Some (g x)) l = Some (map g l).
+Proof. induction l as [|x l IH]; [reflexivity|]. simpl. rewrite IH. reflexivity. Qed.
+Lemma omap_ext {A B} (f g : A -> option B) l : (forall x, In x l -> f x = g x) -> omap f l = omap g l.
+Proof.
+  induction l as [|x l IH]; intro H; [reflexivity|]. simpl. rewrite (H x (or_introl eq_refl)).
+  rewrite IH; [reflexivity|]. intros y Hy. apply H. right. exact Hy.
+Qed.
+Lemma assoc_remove_key {A} k c (l : list (Z * A)) : k <> c -> assoc k (remove_key c l) = assoc k l.
+Proof.
+  intro N. induction l as [|[k' v'] t IH]; [reflexivity|]. simpl. destruct (c =? k') eqn:E.
+  - apply Z.eqb_eq in E. subst. destruct (k =? k') eqn:E2; [apply Z.eqb_eq in E2; contradiction|exact IH].
+  - simpl. destruct (k =? k'); [reflexivity|exact IH].
+Qed.
+Lemma In_remove_key {A} k v c (l : list (Z * A)) : In (k, v) (remove_key c l) -> In (k, v) l /\ k <> c.
+Proof.
+  induction l as [|[k' v'] t IH]; simpl; [tauto|]. destruct (c =? k') eqn:E.
+  - intro H. destruct (IH H). auto.
+  - intros [H|H]; [inversion H; subst; split; [auto|intro X; subst; rewrite Z.eqb_refl in E; discriminate]|destruct (IH H); auto].
+Qed.
+Lemma keys_remove_key {A} c (l : list (Z * A)) : map fst (remove_key c l) = filter (fun k => negb (k =? c)) (map fst l).
+Proof.
+  induction l as [|[k' v'] t IH]; [reflexivity|]. simpl. rewrite (Z.eqb_sym k' c). destruct (c =? k'); simpl; rewrite IH; reflexivity.
+Qed.
+Lemma is_num_add o l : is_num o = true -> is_num l = true -> exists v, cell_add o l = Some v /\ is_num v = true.
+Proof. destruct o; try discriminate; destruct l; try discriminate; simpl; eauto. Qed.
+
+Definition hold_sum (r : row) : option ytree :=
+  match assoc N_offset r, assoc N_length r with Some o, Some l => cell_add o l | _, _ => None end.
+Definition hold_row_steps (r : row) : option row :=
+  hold_sum r >>= fun v =>
+  row_upd N_column plus1 (remove_key N_length (r ++ [(K_EndTime, v)])) >>= row_upd N_offset cast_int >>=
+  row_upd N_column cast_int >>= row_upd K_EndTime cast_int.
+
+Lemma filter_In_keep (p : Z -> bool) x l : In x l -> p x = true -> In x (filter p l).
+Proof. intros. apply filter_In. auto. Qed.
+
+Lemma holds_to_yaml_rows_gen f :
+  In N_offset (f_cols f) -> In N_column (f_cols f) -> In N_length (f_cols f) -> ~ In K_EndTime (f_cols f) ->
+  (forall r, In r (f_rows f) -> map fst r = f_cols f) ->
+  holds_to_yaml f = omap hold_row_steps (f_rows f) >>= fun rs => Some (map (map (fun kv => (ren1 ren_out (fst kv), snd kv))) rs).
+Proof.
+  intros Io Ic Il Ne Hk. unfold holds_to_yaml, fr_set_col.
+  assert (Hf: fr_has K_EndTime f = false).
+  { unfold fr_has. destruct (memZ K_EndTime (f_cols f)) eqn:E; [apply memZ_In in E; contradiction|reflexivity]. }
+  rewrite Hf.
+  rewrite (omap_ext _ (fun r => hold_sum r >>= fun v => Some (r ++ [(K_EndTime, v)]))).
+  2:{ intros r Hr. unfold hold_sum. destruct (assoc N_offset r) as [o|]; [|reflexivity]. destruct (assoc N_length r) as [l|]; [|reflexivity].
+      destruct (cell_add o l) as [v|]; [|reflexivity]. cbn [bind].
+      unfold has_key. rewrite assoc_notin; [reflexivity|]. rewrite (Hk r Hr).
+      destruct (memZ K_EndTime (f_cols f)) eqn:E; [apply memZ_In in E; contradiction|reflexivity]. }
+  rewrite (omap_ext hold_row_steps
+            (fun r => (hold_sum r >>= (fun v => Some (r ++ [(K_EndTime, v)]))) >>=
+                      (fun r' => row_upd N_column plus1 (remove_key N_length r') >>= row_upd N_offset cast_int >>= row_upd N_column cast_int >>= row_upd K_EndTime cast_int))).
+  2:{ intros r _. unfold hold_row_steps. destruct (hold_sum r); reflexivity. }
+  rewrite <- omap_bind.
+  destruct (omap (fun r => hold_sum r >>= (fun v => Some (r ++ [(K_EndTime, v)]))) (f_rows f)) as [r0|]; [|reflexivity].
+  cbn [bind]. unfold fr_drop.
+  assert (H1: fr_has N_length {| f_cols := f_cols f ++ [K_EndTime]; f_rows := r0 |} = true).
+  { apply memZ_In. cbn [f_cols]. apply in_or_app. left. exact Il. }
+  rewrite H1. cbn [bind f_cols f_rows].
+  set (cols' := filter (fun k => negb (k =? N_length)) (f_cols f ++ [K_EndTime])).
+  assert (Mc: memZ N_column cols' = true) by (apply memZ_In; apply filter_In_keep; [apply in_or_app; left; exact Ic|reflexivity]).
+  assert (Mo: memZ N_offset cols' = true) by (apply memZ_In; apply filter_In_keep; [apply in_or_app; left; exact Io|reflexivity]).
+  assert (Me: memZ K_EndTime cols' = true) by (apply memZ_In; apply filter_In_keep; [apply in_or_app; right; left; reflexivity|reflexivity]).
+  rewrite <- !omap_bind.
+  rewrite fr_map_col_rows by exact Mc. cbn [f_rows f_cols]. rewrite omap_map.
+  destruct (omap (fun x => row_upd N_column plus1 (remove_key N_length x)) r0) as [r1|]; [|reflexivity]. cbn [bind].
+  rewrite fr_map_col_rows by exact Mo. cbn [f_rows f_cols].
+  destruct (omap (row_upd N_offset cast_int) r1) as [r2|]; [|reflexivity]. cbn [bind].
+  rewrite fr_map_col_rows by exact Mc. cbn [f_rows f_cols].
+  destruct (omap (row_upd N_column cast_int) r2) as [r3|]; [|reflexivity]. cbn [bind].
+  rewrite fr_map_col_rows by exact Me. cbn [f_rows f_cols].
+  destruct (omap (row_upd K_EndTime cast_int) r3) as [r4|]; reflexivity.
+Qed.
+
+Definition h_hold (k : Z) (v : ytree) : ytree :=
+  if k =? N_offset then YInt (trunc_cell v) else if k =? N_column then YInt (lane_cell v)
+  else if k =? K_EndTime then YInt (trunc_cell v) else v.
+Definition hold_mid (r : row) (v : ytree) : row := remove_key N_length (r ++ [(K_EndTime, v)]).
+
+Lemma hold_decl_keys k p : assoc k (hold_decl false) = Some p ->
+  k = N_offset \/ k = N_column \/ k = N_keysounds \/ k = N_length.
+Proof.
+  unfold hold_decl. simpl. destruct (k =? N_offset) eqn:E1; [apply Z.eqb_eq in E1; auto|].
+  destruct (k =? N_column) eqn:E2; [apply Z.eqb_eq in E2; auto|].
+  destruct (k =? N_keysounds) eqn:E3; [apply Z.eqb_eq in E3; auto|].
+  destruct (k =? N_length) eqn:E4; [apply Z.eqb_eq in E4; auto 6|discriminate].
+Qed.
+Lemma hold_decl_o : assoc N_offset (hold_decl false) = Some is_num. Proof. reflexivity. Qed.
+Lemma hold_decl_c : assoc N_column (hold_decl false) = Some cell_col. Proof. reflexivity. Qed.
+Lemma hold_decl_k : assoc N_keysounds (hold_decl false) = Some (cell_ks false). Proof. reflexivity. Qed.
+Lemma hold_decl_l : assoc N_length (hold_decl false) = Some is_num. Proof. reflexivity. Qed.
+
+Lemma lt1_Qred a b : lt1 a b = true -> lt1 a (Qred b) = true.
+Proof.
+  intro H. apply lt1_true in H. apply lt1_true.
+  setoid_replace (a - Qred b)%Q with (a - b)%Q; [exact H|]. rewrite Qred_correct. reflexivity.
+Qed.
+
+Local Opaque lane_of ks_of is_ks texts_eqb Qred Qplus.
+Lemma hold_canon_ok o c k l v :
+  is_num o = true -> cell_col c = true -> is_ks k = true -> is_num l = true -> cell_add o l = Some v ->
+  exists n n',
+    note_denote (YMap [(K_StartTime, YInt (trunc_cell o)); (K_Lane, YInt (lane_cell c)); (K_KeySounds, k); (K_EndTime, YInt (trunc_cell v))]) = Some n /\
+    hold_row_denote [(N_offset, o); (N_column, c); (N_keysounds, k); (N_length, l)] = Some n' /\ note_closeb n n' = true.
+Proof.
+  intros Ho Hc Hk Hl Ev.
+  unfold cell_col in Hc. destruct (lane_of c) as [ln|] eqn:El; [|discriminate].
+  pose proof (lane_cell_is_lane_of c ln El) as Hln.
+  destruct (is_ks_ks_of k Hk) as [ks Eks].
+  assert (No: exists qo, num o = Some qo) by (destruct o; try discriminate; simpl; eauto). destruct No as [qo Eo].
+  assert (Nl: exists ql, num l = Some ql) by (destruct l; try discriminate; simpl; eauto). destruct Nl as [ql Eql].
+  destruct (cast_int_close o qo Eo) as [z [Ez Cz]]. rewrite (is_num_cast_int o Ho) in Ez. inversion Ez as [Ez'].
+  destruct (hold_end_close o l qo ql Eo Eql) as [v' [z' [Ev' [Ez2 Cz2]]]]. rewrite Ev in Ev'. inversion Ev'; subst v'.
+  assert (Hv: is_num v = true) by (destruct (is_num_add o l Ho Hl) as [w [Ew Hw]]; rewrite Ev in Ew; inversion Ew; subst; exact Hw).
+  rewrite (is_num_cast_int v Hv) in Ez2. inversion Ez2 as [Ez2'].
+  exists (mkNote ln (inject_Z (trunc_cell o)) (Some (inject_Z (trunc_cell v))) ks), (mkNote ln qo (Some (Qred (qo + ql))) ks).
+  unfold note_denote, hold_row_denote, get_default, K_KeySounds, K_StartTime, K_Lane, K_EndTime, N_offset, N_column, N_keysounds, N_length; simpl.
+  rewrite ?Hln, ?El, ?Eks, ?Eo, ?Eql. split; [reflexivity|]. split; [reflexivity|].
+  unfold note_closeb. cbn [n_lane n_start n_end n_ks]. rewrite Z.eqb_refl, texts_eqb_refl. rewrite Ez', Cz. rewrite Ez2'. rewrite (lt1_Qred _ _ Cz2). reflexivity.
+Qed.
+Local Transparent lane_of ks_of is_ks texts_eqb Qred Qplus.
+
+Lemma hold_row_denote_assoc r1 r2 :
+  assoc N_offset r1 = assoc N_offset r2 -> assoc N_column r1 = assoc N_column r2 ->
+  assoc N_keysounds r1 = assoc N_keysounds r2 -> assoc N_length r1 = assoc N_length r2 -> hold_row_denote r1 = hold_row_denote r2.
+Proof. intros A B C D. unfold hold_row_denote. rewrite A, B, C, D. reflexivity. Qed.
+
+Lemma NoDup_app_singleton (l : list Z) x : NoDup l -> ~ In x l -> NoDup (l ++ [x]).
+Proof.
+  intros H N. induction H as [|y t Hy Ht IH]; [constructor; [simpl; tauto|constructor]|].
+  simpl. constructor.
+  - intro X. apply in_app_or in X. destruct X as [X|[X|[]]]; [contradiction|subst; apply N; left; reflexivity].
+  - apply IH. intro X. apply N. right. exact X.
+Qed.
+
+Section HoldRow.
+  Variable cols : list Z.
+  Variable r : row.
+  Hypothesis Hnd : NoDup cols.
+  Hypothesis Hall : forall c, In c (map fst (hold_decl false)) -> In c cols.
+  Hypothesis Honly : forall c, In c cols -> has_key c (hold_decl false) = true.
+  Hypothesis Hty : row_typed (hold_decl false) cols r.
+
+  Lemma hold_keys k : In k (map fst r) -> k = N_offset \/ k = N_column \/ k = N_keysounds \/ k = N_length.
+  Proof.
+    destruct Hty as [E _]. rewrite E. intro H. specialize (Honly k H). unfold has_key in Honly.
+    destruct (assoc k (hold_decl false)) as [p|] eqn:Ep; [|discriminate]. exact (hold_decl_keys k p Ep).
+  Qed.
+  Lemma hold_get k : In k (map fst (hold_decl false)) -> exists v p, assoc k r = Some v /\ assoc k (hold_decl false) = Some p /\ p v = true.
+  Proof.
+    intro H. destruct Hty as [E T]. assert (M: memZ k (map fst r) = true) by (apply memZ_In; rewrite E; apply Hall; exact H).
+    destruct (assoc_mem k r M) as [v Ev]. destruct (T k v (assoc_In _ _ _ Ev)) as [p [Ep Hp]]. exists v, p. auto.
+  Qed.
+  Lemma hold_no_end : assoc K_EndTime r = None.
+  Proof.
+    apply assoc_notin. destruct (memZ K_EndTime (map fst r)) eqn:E; [|reflexivity].
+    apply memZ_In in E. destruct (hold_keys _ E) as [X|[X|[X|X]]]; discriminate X.
+  Qed.
+  Lemma hold_mid_keys v k : In k (map fst (hold_mid r v)) ->
+    k = N_offset \/ k = N_column \/ k = N_keysounds \/ k = K_EndTime.
+  Proof.
+    unfold hold_mid. rewrite keys_remove_key. intro H. apply filter_In in H. destruct H as [H N].
+    rewrite map_app in H. apply in_app_or in H. destruct H as [H|H].
+    - destruct (hold_keys k H) as [X|[X|[X|X]]]; auto. subst. discriminate N.
+    - simpl in H. destruct H as [<-|[]]. auto 6.
+  Qed.
+
+  Lemma hold_row_pipeline : exists o c k l v,
+    assoc N_offset r = Some o /\ assoc N_column r = Some c /\ assoc N_keysounds r = Some k /\ assoc N_length r = Some l /\
+    is_num o = true /\ cell_col c = true /\ is_ks k = true /\ is_num l = true /\ cell_add o l = Some v /\ is_num v = true /\
+    hold_row_steps r = Some (map (fun kv => (fst kv, h_hold (fst kv) (snd kv))) (hold_mid r v)).
+  Proof.
+    destruct (hold_get N_offset) as [o [po [Eo [Epo Ho]]]]; [simpl; auto|].
+    destruct (hold_get N_column) as [c [pc [Ec [Epc Hc]]]]; [simpl; auto|].
+    destruct (hold_get N_keysounds) as [k [pk [Ek [Epk Hk]]]]; [simpl; auto|].
+    destruct (hold_get N_length) as [l [pl [El [Epl Hl]]]]; [simpl; auto 6|].
+    rewrite hold_decl_o in Epo. rewrite hold_decl_c in Epc. rewrite hold_decl_k in Epk. rewrite hold_decl_l in Epl.
+    inversion Epo; inversion Epc; inversion Epk; inversion Epl; subst po pc pk pl. clear Epo Epc Epk Epl.
+    rewrite cell_ks_is_ks in Hk.
+    destruct (is_num_add o l Ho Hl) as [v [Ev Hv]].
+    exists o, c, k, l, v. repeat (split; [assumption|]).
+    unfold hold_row_steps, hold_sum. rewrite Eo, El, Ev. cbn [bind]. fold (hold_mid r v).
+    rewrite (row_upd_is_map N_column plus1), !row_map_then_upd. apply row_map_total.
+    intros k0 v0 Hin. unfold hold_mid in Hin. apply In_remove_key in Hin. destruct Hin as [Hin Nk].
+    apply in_app_or in Hin. destruct Hin as [Hin|Hin].
+    - destruct Hty as [_ T]. destruct (T k0 v0 Hin) as [p [Ep Hp]].
+      destruct (hold_decl_keys k0 p Ep) as [ -> | [ -> | [ -> | -> ] ] ]; [| | |contradiction].
+      + rewrite hold_decl_o in Ep. inversion Ep; subst p. unfold h_hold. cbn. rewrite (is_num_cast_int v0 Hp). reflexivity.
+      + rewrite hold_decl_c in Ep. inversion Ep; subst p. unfold h_hold. cbn.
+        pose proof (cell_col_plus1 v0 Hp) as E. unfold bind in E. destruct (plus1 v0) as [w|]; [|discriminate]. cbn. rewrite E. reflexivity.
+      + reflexivity.
+    - simpl in Hin. destruct Hin as [Hin|[]]. inversion Hin; subst k0 v0. unfold h_hold. cbn. rewrite (is_num_cast_int v Hv). reflexivity.
+  Qed.
+
+  Definition hold_v : ytree := match hold_sum r with Some v => v | None => YNull end.
+  Lemma hold_row_ok :
+    hold_row_steps r = Some (map (fun kv => (fst kv, h_hold (fst kv) (snd kv))) (hold_mid r hold_v)) /\
+    rec_okb note_keys (YMap (out_row h_hold (hold_mid r hold_v))) = true /\
+    exists n n', note_denote (YMap (out_row h_hold (hold_mid r hold_v))) = Some n /\ hold_row_denote r = Some n' /\ note_closeb n n' = true.
+  Proof.
+    destruct hold_row_pipeline as [o [c [k [l [v [Eo [Ec [Ek [El [Ho [Hc [Hk [Hl [Ev [Hv Hs]]]]]]]]]]]]]]].
+    assert (Ehv: hold_v = v) by (unfold hold_v, hold_sum; rewrite Eo, El, Ev; reflexivity). rewrite Ehv.
+    split; [exact Hs|].
+    pose proof hold_no_end as Ne.
+    assert (M: forall k0, k0 <> N_length -> assoc k0 (hold_mid r v) = match assoc k0 r with Some x => Some x | None => assoc k0 [(K_EndTime, v)] end).
+    { intros k0 N. unfold hold_mid. rewrite assoc_remove_key by exact N. apply assoc_app. }
+    assert (A1: assoc K_StartTime (out_row h_hold (hold_mid r v)) = Some (YInt (trunc_cell o))).
+    { change K_StartTime with (ren1 ren_out N_offset). unfold out_row. rewrite assoc_map_ren.
+      - rewrite M by discriminate. rewrite Eo. reflexivity.
+      - intros k' Hk'. destruct (hold_mid_keys v k' Hk') as [ -> | [ -> | [ -> | -> ] ] ]; cbv; intro X; try reflexivity; discriminate. }
+    assert (A2: assoc K_Lane (out_row h_hold (hold_mid r v)) = Some (YInt (lane_cell c))).
+    { change K_Lane with (ren1 ren_out N_column). unfold out_row. rewrite assoc_map_ren.
+      - rewrite M by discriminate. rewrite Ec. reflexivity.
+      - intros k' Hk'. destruct (hold_mid_keys v k' Hk') as [ -> | [ -> | [ -> | -> ] ] ]; cbv; intro X; try reflexivity; discriminate. }
+    assert (A3: assoc K_KeySounds (out_row h_hold (hold_mid r v)) = Some k).
+    { change K_KeySounds with (ren1 ren_out N_keysounds). unfold out_row. rewrite assoc_map_ren.
+      - rewrite M by discriminate. rewrite Ek. reflexivity.
+      - intros k' Hk'. destruct (hold_mid_keys v k' Hk') as [ -> | [ -> | [ -> | -> ] ] ]; cbv; intro X; try reflexivity; discriminate. }
+    assert (A4: assoc K_EndTime (out_row h_hold (hold_mid r v)) = Some (YInt (trunc_cell v))).
+    { change K_EndTime with (ren1 ren_out K_EndTime) at 1. unfold out_row. rewrite assoc_map_ren.
+      - rewrite M by discriminate. rewrite Ne. reflexivity.
+      - intros k' Hk'. destruct (hold_mid_keys v k' Hk') as [ -> | [ -> | [ -> | -> ] ] ]; cbv; intro X; try reflexivity; discriminate. }
+    destruct (hold_canon_ok o c k l v Ho Hc Hk Hl Ev) as [n [n' [D1 [D2 D3]]]].
+    split.
+    - unfold rec_okb. apply andb_true_iff. split.
+      + unfold out_row. rewrite map_map. cbn [fst].
+        rewrite <- (map_map fst (ren1 ren_out)). apply nodupZ_map_inj.
+        * intros x y Hx Hy. destruct (hold_mid_keys v x Hx) as [ -> | [ -> | [ -> | -> ] ] ];
+            destruct (hold_mid_keys v y Hy) as [ -> | [ -> | [ -> | -> ] ] ]; cbv; intro X; try reflexivity; discriminate.
+        * apply nodupZ_NoDup. unfold hold_mid. rewrite keys_remove_key. apply NoDup_filter.
+          rewrite map_app. destruct Hty as [E _]. rewrite E. cbn [map fst].
+          apply NoDup_app_singleton; [exact Hnd|]. intro X. rewrite <- E in X. destruct (hold_keys _ X) as [Y|[Y|[Y|Y]]]; discriminate Y.
+      + apply forallb_forall. intros [k' v'] Hin. unfold out_row in Hin. apply in_map_iff in Hin.
+        destruct Hin as [[k0 v0] [E Hin]]. cbn [fst snd] in E. inversion E; subst k' v'. clear E.
+        unfold hold_mid in Hin. apply In_remove_key in Hin. destruct Hin as [Hin Nk]. apply in_app_or in Hin. destruct Hin as [Hin|Hin].
+        * destruct Hty as [_ T]. destruct (T k0 v0 Hin) as [p [Ep Hp]].
+          destruct (hold_decl_keys k0 p Ep) as [ -> | [ -> | [ -> | -> ] ] ]; [| | |contradiction];
+            [rewrite hold_decl_o in Ep|rewrite hold_decl_c in Ep|rewrite hold_decl_k in Ep]; inversion Ep; subst p; cbn [fst snd].
+          -- reflexivity.
+          -- change (is_lane (YInt (lane_cell v0)) = true). apply is_lane_lane_cell. exact Hp.
+          -- change (is_ks v0 = true). rewrite <- cell_ks_is_ks. exact Hp.
+        * simpl in Hin. destruct Hin as [Hin|[]]. inversion Hin; subst k0 v0. reflexivity.
+    - exists n, n'. split; [|split; [|exact D3]].
+      + rewrite <- D1. apply note_denote_assoc; [rewrite A1|rewrite A2|rewrite A3|rewrite A4]; reflexivity.
+      + rewrite <- D2. apply hold_row_denote_assoc; [rewrite Eo|rewrite Ec|rewrite Ek|rewrite El]; reflexivity.
+  Qed.
+End HoldRow.
+
+Theorem holds_to_yaml_ok f : frame_okb (hold_decl false) false f = true ->
+  exists rows, holds_to_yaml f = Some rows /\ SectionOK hold_row_denote (f_rows f) note_keys rows.
+Proof.
+  intro H. destruct (frame_ok_inv _ _ H) as [Hnd [Hall [Honly Hrows]]]. rewrite Forall_forall in Hrows.
+  assert (P: forall r, In r (f_rows f) -> _) by (intros r Hr; exact (hold_row_ok (f_cols f) r Hnd Hall Honly (Hrows r Hr))).
+  exists (map (fun r => out_row h_hold (hold_mid r (hold_v r))) (f_rows f)). split.
+  - rewrite holds_to_yaml_rows_gen.
+    + rewrite (omap_some_map _ (fun r => map (fun kv => (fst kv, h_hold (fst kv) (snd kv))) (hold_mid r (hold_v r)))).
+      * cbn [bind]. f_equal. rewrite map_map. apply map_ext. intro r. apply out_row_split.
+      * intros r Hr. apply (P r Hr).
+    + apply Hall; simpl; auto.
+    + apply Hall; simpl; auto.
+    + apply Hall; simpl; auto 6.
+    + intro X. specialize (Honly _ X). discriminate Honly.
+    + intros r Hr. apply (Hrows r Hr).
+  - split.
+    + rewrite map_map. apply forallb_forall. intros y Hy. apply in_map_iff in Hy. destruct Hy as [r [<- Hr]]. apply (P r Hr).
+    + rewrite map_map, omap_map.
+      destruct (omap_all2 (fun r => note_denote (YMap (out_row h_hold (hold_mid r (hold_v r))))) hold_row_denote note_closeb (f_rows f)) as [ns [ns' X]].
+      * intros r Hr. apply (P r Hr).
+      * exists ns, ns'. exact X.
+Qed.
+
+(* ================================================================== QuaSvList.to_yaml / QuaBpmList.to_yaml *)
+Definition float_cell (v : ytree) : ytree := match v with YInt z => YFloat (inject_Z z) | _ => v end.
+Lemma is_num_cast_float v : is_num v = true -> cast_float v = Some (float_cell v) /\ is_float (float_cell v) = true /\ num (float_cell v) = num v.
+Proof. destruct v; try discriminate; simpl; auto. Qed.
+
+Definition PointsOK (kval : Z) (dflt : Q) (cval : Z) (src : list row) (allowed : list (Z * (ytree -> bool))) (rows : list row) : Prop :=
+  forallb (rec_okb allowed) (map YMap rows) = true /\
+  exists ps ps', omap (point_denote kval dflt) (map YMap rows) = Some ps /\ omap (point_row_denote cval) src = Some ps' /\
+                 all2 pt_closeb ps ps' = true.
+
+Lemma point_denote_assoc kval dflt r1 r2 :
+  assoc K_StartTime r1 = assoc K_StartTime r2 -> assoc kval r1 = assoc kval r2 ->
+  point_denote kval dflt (YMap r1) = point_denote kval dflt (YMap r2).
+Proof. intros A B. unfold point_denote, get_default. rewrite A, B. reflexivity. Qed.
+
+(* the two-column core shared by both lists: offset -> int, value column -> float, renamed *)
+Section Points.
+  Variable cval kval : Z.                       (* N_multiplier / K_Multiplier, N_bpm / K_Bpm *)
+  Variable decl : list (Z * (ytree -> bool)).
+  Variable ren : list (Z * Z).
+  Hypothesis Hcv : cval <> N_offset.
+  Hypothesis Hren_o : ren1 ren N_offset = K_StartTime.
+  Hypothesis Hren_v : ren1 ren cval = kval.
+  Hypothesis Hkv : kval <> K_StartTime.
+  Hypothesis Hdecl_o : assoc N_offset decl = Some is_num.
+  Hypothesis Hdecl_v : assoc cval decl = Some is_num.
+  Hypothesis Hdecl_num : forall k p, assoc k decl = Some p -> p = is_num.
+  (* renaming is injective on the declared columns and sends only offset / cval to StartTime / kval *)
+  Hypothesis Hren_inj : forall x y, has_key x decl = true -> has_key y decl = true -> ren1 ren x = ren1 ren y -> x = y.
+
+  Definition h_pt (k : Z) (v : ytree) : ytree :=
+    if k =? N_offset then YInt (trunc_cell v) else if k =? cval then float_cell v else v.
+  Definition pt_out (r : row) : row := map (fun kv => (ren1 ren (fst kv), h_pt (fst kv) (snd kv))) r.
+
+  Variable cols : list Z.
+  Variable r : row.
+  Hypothesis Hnd : NoDup cols.
+  Hypothesis Hall : forall c, In c (map fst decl) -> In c cols.
+  Hypothesis Honly : forall c, In c cols -> has_key c decl = true.
+  Hypothesis Hty : row_typed decl cols r.
+
+  Lemma pt_key_ok k : In k (map fst r) -> has_key k decl = true.
+  Proof. destruct Hty as [E _]. rewrite E. apply Honly. Qed.
+  Lemma pt_get k : has_key k decl = true -> In k (map fst decl) -> exists v, assoc k r = Some v /\ is_num v = true.
+  Proof.
+    intros _ H. destruct Hty as [E T]. assert (M: memZ k (map fst r) = true) by (apply memZ_In; rewrite E; apply Hall; exact H).
+    destruct (assoc_mem k r M) as [v Ev]. destruct (T k v (assoc_In _ _ _ Ev)) as [p [Ep Hp]].
+    rewrite (Hdecl_num k p Ep) in Hp. eauto.
+  Qed.
+  Lemma assoc_In_keys {A} k (l : list (Z * A)) v : assoc k l = Some v -> In k (map fst l).
+  Proof. intro H. apply assoc_In in H. apply in_map_iff. exists (k, v). auto. Qed.
+
+  Lemma pt_pipeline :
+    (row_upd N_offset cast_int r >>= row_upd cval cast_float) = Some (map (fun kv => (fst kv, h_pt (fst kv) (snd kv))) r).
+  Proof.
+    rewrite (row_upd_is_map N_offset cast_int), row_map_then_upd. apply row_map_total.
+    intros k v Hin. destruct Hty as [_ T]. destruct (T k v Hin) as [p [Ep Hp]]. rewrite (Hdecl_num k p Ep) in Hp.
+    unfold h_pt. destruct (k =? N_offset) eqn:E1.
+    - apply Z.eqb_eq in E1. subst k. rewrite (is_num_cast_int v Hp). cbn [bind].
+      destruct (N_offset =? cval) eqn:E2; [apply Z.eqb_eq in E2; symmetry in E2; contradiction|reflexivity].
+    - cbn [bind]. destruct (k =? cval); [apply is_num_cast_float; exact Hp|reflexivity].
+  Qed.
+
+  Lemma pt_out_ok (allowed : list (Z * (ytree -> bool))) (dflt : Q) :
+    assoc K_StartTime allowed = Some is_int -> assoc kval allowed = Some is_float ->
+    (forall k, has_key k decl = true -> k <> N_offset -> k <> cval -> assoc (ren1 ren k) allowed = Some is_num) ->
+    exists o x, assoc N_offset r = Some o /\ assoc cval r = Some x /\ is_num o = true /\ is_num x = true /\
+      assoc K_StartTime (pt_out r) = Some (YInt (trunc_cell o)) /\ assoc kval (pt_out r) = Some (float_cell x) /\
+      nodupZ (map fst (pt_out r)) = true /\
+      forallb (fun kv => match assoc (fst kv) allowed with Some p => p (snd kv) | None => false end) (pt_out r) = true.
+  Proof.
+    intros Ao Av Aother.
+    assert (Ko: has_key N_offset decl = true) by (unfold has_key; rewrite Hdecl_o; reflexivity).
+    assert (Kv: has_key cval decl = true) by (unfold has_key; rewrite Hdecl_v; reflexivity).
+    destruct (pt_get N_offset Ko (assoc_In_keys _ _ _ Hdecl_o)) as [o [Eo Ho]].
+    destruct (pt_get cval Kv (assoc_In_keys _ _ _ Hdecl_v)) as [x [Ex Hx]].
+    exists o, x. repeat (split; [assumption|]).
+    split; [|split; [|split]].
+    - rewrite <- Hren_o. unfold pt_out. rewrite assoc_map_ren.
+      + rewrite Eo. unfold h_pt. rewrite Z.eqb_refl. reflexivity.
+      + intros k' Hk'. apply Hren_inj; [apply pt_key_ok; exact Hk'|exact Ko].
+    - rewrite <- Hren_v. unfold pt_out. rewrite assoc_map_ren.
+      + rewrite Ex. unfold h_pt. destruct (cval =? N_offset) eqn:E; [apply Z.eqb_eq in E; contradiction|]. rewrite Z.eqb_refl. reflexivity.
+      + intros k' Hk'. apply Hren_inj; [apply pt_key_ok; exact Hk'|exact Kv].
+    - unfold pt_out. rewrite map_map. cbn [fst]. rewrite <- (map_map fst (ren1 ren)). apply nodupZ_map_inj.
+      + intros a b Ha Hb. apply Hren_inj; apply pt_key_ok; assumption.
+      + apply nodupZ_NoDup. destruct Hty as [E _]. rewrite E. exact Hnd.
+    - apply forallb_forall. intros [k' v'] Hin. unfold pt_out in Hin. apply in_map_iff in Hin.
+      destruct Hin as [[k0 v0] [E Hin]]. cbn [fst snd] in E. inversion E; subst k' v'. clear E. cbn [fst snd].
+      destruct Hty as [_ T]. destruct (T k0 v0 Hin) as [p [Ep Hp]]. rewrite (Hdecl_num k0 p Ep) in Hp.
+      assert (K0: has_key k0 decl = true) by (unfold has_key; rewrite Ep; reflexivity).
+      unfold h_pt. destruct (k0 =? N_offset) eqn:E1.
+      + apply Z.eqb_eq in E1. subst k0. rewrite Hren_o, Ao. reflexivity.
+      + destruct (k0 =? cval) eqn:E2.
+        * apply Z.eqb_eq in E2. subst k0. rewrite Hren_v, Av. apply is_num_cast_float. exact Hp.
+        * rewrite (Aother k0 K0); [exact Hp| |]; intro X; subst k0; rewrite Z.eqb_refl in *; discriminate.
+  Qed.
+End Points.
+
+Lemma pt_close_from_assoc kval dflt cval (R r : row) o x :
+  assoc K_StartTime R = Some (YInt (trunc_cell o)) -> assoc kval R = Some (float_cell x) ->
+  assoc N_offset r = Some o -> assoc cval r = Some x -> is_num o = true -> is_num x = true ->
+  exists p p', point_denote kval dflt (YMap R) = Some p /\ point_row_denote cval r = Some p' /\ pt_closeb p p' = true.
+Proof.
+  intros A1 A2 Eo Ex Ho Hx.
+  assert (No: exists qo, num o = Some qo) by (destruct o; try discriminate; simpl; eauto). destruct No as [qo Nqo].
+  assert (Nx: exists qx, num x = Some qx) by (destruct x; try discriminate; simpl; eauto). destruct Nx as [qx Nqx].
+  destruct (cast_int_close o qo Nqo) as [z [Ez Cz]]. rewrite (is_num_cast_int o Ho) in Ez. inversion Ez as [Ez'].
+  destruct (is_num_cast_float x Hx) as [_ [_ Nf]].
+  exists (inject_Z (trunc_cell o), qx), (qo, qx).
+  unfold point_denote, point_row_denote, get_default. rewrite A1, A2, Eo, Ex, Nf, Nqo, Nqx. cbn [num].
+  split; [reflexivity|]. split; [reflexivity|].
+  unfold pt_closeb. cbn [fst snd]. rewrite Ez', Cz. apply Qeq_bool_iff. reflexivity.
+Qed.
+
+Definition ren_sv : list (Z * Z) := [(N_offset, K_StartTime); (N_multiplier, K_Multiplier)].
+Definition ren_bpm : list (Z * Z) := [(N_offset, K_StartTime); (N_bpm, K_Bpm)].
+
+Lemma svs_to_yaml_rows_gen f : fr_has N_offset f = true -> fr_has N_multiplier f = true ->
+  svs_to_yaml f = omap (fun r => row_upd N_offset cast_int r >>= row_upd N_multiplier cast_float) (f_rows f)
+                  >>= fun rs => Some (map (map (fun kv => (ren1 ren_sv (fst kv), snd kv))) rs).
+Proof.
+  intros Ho Hm. rewrite <- omap_bind. unfold svs_to_yaml.
+  rewrite (fr_map_col_rows _ _ f Ho).
+  destruct (omap (row_upd N_offset cast_int) (f_rows f)) as [r1|]; [|reflexivity]. cbn [bind].
+  rewrite fr_map_col_rows by exact Hm. cbn [f_rows f_cols].
+  destruct (omap (row_upd N_multiplier cast_float) r1) as [r2|]; reflexivity.
+Qed.
+
+Lemma sv_decl_keys k p : assoc k sv_decl = Some p -> (k = N_offset \/ k = N_multiplier) /\ p = is_num.
+Proof.
+  unfold sv_decl. simpl. destruct (k =? N_offset) eqn:E1; [apply Z.eqb_eq in E1; intro H; inversion H; auto|].
+  destruct (k =? N_multiplier) eqn:E2; [apply Z.eqb_eq in E2; intro H; inversion H; auto|discriminate].
+Qed.
+Lemma has_key_sv k : has_key k sv_decl = true -> k = N_offset \/ k = N_multiplier.
+Proof. unfold has_key. destruct (assoc k sv_decl) eqn:E; [|discriminate]. intros _. apply (sv_decl_keys k _ E). Qed.
+
+Theorem svs_to_yaml_ok f : frame_okb sv_decl false f = true ->
+  exists rows, svs_to_yaml f = Some rows /\ PointsOK K_Multiplier 1%Q N_multiplier (f_rows f) sv_keys rows.
+Proof.
+  intro H. destruct (frame_ok_inv _ _ H) as [Hnd [Hall [Honly Hrows]]]. rewrite Forall_forall in Hrows.
+  assert (Inj: forall x y, has_key x sv_decl = true -> has_key y sv_decl = true -> ren1 ren_sv x = ren1 ren_sv y -> x = y).
+  { intros x y Hx Hy. destruct (has_key_sv x Hx) as [ -> | -> ]; destruct (has_key_sv y Hy) as [ -> | -> ]; cbv; intro X; try reflexivity; discriminate. }
+  assert (Num: forall k p, assoc k sv_decl = Some p -> p = is_num) by (intros k p E; apply (sv_decl_keys k p E)).
+  assert (P: forall r, In r (f_rows f) ->
+     rec_okb sv_keys (YMap (pt_out N_multiplier ren_sv r)) = true /\
+     exists p p', point_denote K_Multiplier 1%Q (YMap (pt_out N_multiplier ren_sv r)) = Some p /\ point_row_denote N_multiplier r = Some p' /\ pt_closeb p p' = true).
+  { intros r Hr.
+    destruct (pt_out_ok N_multiplier K_Multiplier sv_decl ren_sv ltac:(discriminate) eq_refl eq_refl eq_refl eq_refl Num Inj
+                (f_cols f) r Hnd Hall Honly (Hrows r Hr) sv_keys 1%Q eq_refl eq_refl) as [o [x [Eo [Ex [Ho [Hx [A1 [A2 [ND FA]]]]]]]]].
+    { intros k Hk N1 N2. destruct (has_key_sv k Hk); contradiction. }
+    split; [unfold rec_okb; rewrite ND, FA; reflexivity|].
+    exact (pt_close_from_assoc K_Multiplier 1%Q N_multiplier _ r o x A1 A2 Eo Ex Ho Hx). }
+  exists (map (pt_out N_multiplier ren_sv) (f_rows f)). split.
+  - rewrite svs_to_yaml_rows_gen; try (apply memZ_In; apply Hall; simpl; auto).
+    rewrite (omap_some_map _ (fun r => map (fun kv => (fst kv, h_pt N_multiplier (fst kv) (snd kv))) r)).
+    + cbn [bind]. f_equal. rewrite map_map. apply map_ext. intro r. unfold pt_out. rewrite map_map. reflexivity.
+    + intros r Hr. apply (pt_pipeline N_multiplier sv_decl ltac:(discriminate) Num (f_cols f) r (Hrows r Hr)).
+  - split.
+    + rewrite map_map. apply forallb_forall. intros y Hy. apply in_map_iff in Hy. destruct Hy as [r [<- Hr]]. apply (P r Hr).
+    + rewrite map_map, omap_map.
+      destruct (omap_all2 (fun r => point_denote K_Multiplier 1%Q (YMap (pt_out N_multiplier ren_sv r))) (point_row_denote N_multiplier) pt_closeb (f_rows f)) as [ps [ps' X]].
+      * intros r Hr. apply (P r Hr).
+      * exists ps, ps'. exact X.
+Qed.
+
+Lemma bpms_to_yaml_rows_gen f : fr_has N_offset f = true -> fr_has N_bpm f = true -> fr_has N_metronome f = true ->
+  bpms_to_yaml f = omap (fun r => row_upd N_offset cast_int r >>= row_upd N_bpm cast_float) (f_rows f)
+                   >>= fun rs => Some (map (remove_key N_metronome) (map (map (fun kv => (ren1 ren_bpm (fst kv), snd kv))) rs)).
+Proof.
+  intros Ho Hb Hm. rewrite <- omap_bind. unfold bpms_to_yaml.
+  rewrite (fr_map_col_rows _ _ f Ho).
+  destruct (omap (row_upd N_offset cast_int) (f_rows f)) as [r1|]; [|reflexivity]. cbn [bind].
+  rewrite fr_map_col_rows by exact Hb. cbn [f_rows f_cols].
+  destruct (omap (row_upd N_bpm cast_float) r1) as [r2|]; [|reflexivity]. cbn [bind].
+  unfold fr_drop.
+  assert (X: fr_has N_metronome (fr_rename [(N_offset, K_StartTime); (N_bpm, K_Bpm)] {| f_cols := f_cols f; f_rows := r2 |}) = true).
+  { unfold fr_has, fr_rename. cbn [f_cols]. apply memZ_In. apply memZ_In in Hm.
+    change N_metronome with (ren1 [(N_offset, K_StartTime); (N_bpm, K_Bpm)] N_metronome) at 1. apply in_map. exact Hm. }
+  rewrite X. reflexivity.
+Qed.
+
+Lemma bpm_decl_keys k p : assoc k bpm_decl = Some p -> (k = N_offset \/ k = N_bpm \/ k = N_metronome) /\ p = is_num.
+Proof.
+  unfold bpm_decl. simpl. destruct (k =? N_offset) eqn:E1; [apply Z.eqb_eq in E1; intro H; inversion H; auto|].
+  destruct (k =? N_bpm) eqn:E2; [apply Z.eqb_eq in E2; intro H; inversion H; auto|].
+  destruct (k =? N_metronome) eqn:E3; [apply Z.eqb_eq in E3; intro H; inversion H; auto|discriminate].
+Qed.
+Lemma has_key_bpm k : has_key k bpm_decl = true -> k = N_offset \/ k = N_bpm \/ k = N_metronome.
+Proof. unfold has_key. destruct (assoc k bpm_decl) eqn:E; [|discriminate]. intros _. apply (bpm_decl_keys k _ E). Qed.
+
+Definition tp_keys_m : list (Z * (ytree -> bool)) := tp_keys ++ [(N_metronome, is_num)].
+
+Theorem bpms_to_yaml_ok f : frame_okb bpm_decl false f = true ->
+  exists rows, bpms_to_yaml f = Some rows /\ PointsOK K_Bpm 120%Q N_bpm (f_rows f) tp_keys rows.
+Proof.
+  intro H. destruct (frame_ok_inv _ _ H) as [Hnd [Hall [Honly Hrows]]]. rewrite Forall_forall in Hrows.
+  assert (Inj: forall x y, has_key x bpm_decl = true -> has_key y bpm_decl = true -> ren1 ren_bpm x = ren1 ren_bpm y -> x = y).
+  { intros x y Hx Hy. destruct (has_key_bpm x Hx) as [ -> | [ -> | -> ] ]; destruct (has_key_bpm y Hy) as [ -> | [ -> | -> ] ];
+      cbv; intro X; try reflexivity; discriminate. }
+  assert (Num: forall k p, assoc k bpm_decl = Some p -> p = is_num) by (intros k p E; apply (bpm_decl_keys k p E)).
+  set (fin := fun r => remove_key N_metronome (pt_out N_bpm ren_bpm r)).
+  assert (P: forall r, In r (f_rows f) ->
+     rec_okb tp_keys (YMap (fin r)) = true /\
+     exists p p', point_denote K_Bpm 120%Q (YMap (fin r)) = Some p /\ point_row_denote N_bpm r = Some p' /\ pt_closeb p p' = true).
+  { intros r Hr.
+    destruct (pt_out_ok N_bpm K_Bpm bpm_decl ren_bpm ltac:(discriminate) eq_refl eq_refl eq_refl eq_refl Num Inj
+                (f_cols f) r Hnd Hall Honly (Hrows r Hr) tp_keys_m 120%Q eq_refl eq_refl) as [o [x [Eo [Ex [Ho [Hx [A1 [A2 [ND FA]]]]]]]]].
+    { intros k Hk N1 N2. destruct (has_key_bpm k Hk) as [X|[X|X]]; try contradiction. subst k. reflexivity. }
+    split.
+    - unfold rec_okb, fin. apply andb_true_iff. split.
+      + rewrite keys_remove_key. apply nodupZ_NoDup. apply NoDup_filter. apply nodupZ_NoDup. exact ND.
+      + apply forallb_forall. intros [k v] Hin. apply In_remove_key in Hin. destruct Hin as [Hin Nk].
+        rewrite forallb_forall in FA. specialize (FA (k, v) Hin). cbn [fst snd] in *.
+        unfold tp_keys_m in FA. rewrite assoc_app in FA. destruct (assoc k tp_keys) as [p|]; [exact FA|].
+        simpl in FA. destruct (k =? N_metronome) eqn:E; [apply Z.eqb_eq in E; contradiction|discriminate].
+    - unfold fin.
+      apply (pt_close_from_assoc K_Bpm 120%Q N_bpm _ r o x); try assumption.
+      + rewrite assoc_remove_key by discriminate. exact A1.
+      + rewrite assoc_remove_key by discriminate. exact A2. }
+  exists (map fin (f_rows f)). split.
+  - rewrite bpms_to_yaml_rows_gen; try (apply memZ_In; apply Hall; simpl; auto).
+    rewrite (omap_some_map _ (fun r => map (fun kv => (fst kv, h_pt N_bpm (fst kv) (snd kv))) r)).
+    + cbn [bind]. f_equal. rewrite !map_map. apply map_ext. intro r. unfold fin, pt_out. rewrite map_map. reflexivity.
+    + intros r Hr. apply (pt_pipeline N_bpm bpm_decl ltac:(discriminate) Num (f_cols f) r (Hrows r Hr)).
+  - split.
+    + rewrite map_map. apply forallb_forall. intros y Hy. apply in_map_iff in Hy. destruct Hy as [r [<- Hr]]. apply (P r Hr).
+    + rewrite map_map, omap_map.
+      destruct (omap_all2 (fun r => point_denote K_Bpm 120%Q (YMap (fin r))) (point_row_denote N_bpm) pt_closeb (f_rows f)) as [ps [ps' X]].
+      * intros r Hr. apply (P r Hr).
+      * exists ps, ps'. exact X.
+Qed.
+
+(* ================================================================== metadata and the assembly of the document *)
+Lemma omap_app {A B} (f : A -> option B) l1 l2 r1 r2 :
+  omap f l1 = Some r1 -> omap f l2 = Some r2 -> omap f (l1 ++ l2) = Some (r1 ++ r2).
+Proof.
+  revert r1. induction l1 as [|x l1 IH]; intros r1 H1 H2; simpl in *.
+  - inversion H1. exact H2.
+  - destruct (f x) as [y|]; [|discriminate]. destruct (omap f l1) as [t|]; [|discriminate]. inversion H1; subst.
+    rewrite (IH t eq_refl H2). reflexivity.
+Qed.
+Lemma all2_app {A B} (p : A -> B -> bool) a1 b1 a2 b2 :
+  all2 p a1 b1 = true -> all2 p a2 b2 = true -> all2 p (a1 ++ a2) (b1 ++ b2) = true.
+Proof.
+  revert b1. induction a1 as [|x a1 IH]; destruct b1 as [|y b1]; simpl; intros H1 H2; try discriminate; [exact H2|].
+  apply andb_true_iff in H1. destruct H1 as [H H1]. rewrite H. apply IH; assumption.
+Qed.
+Lemma texts_map_YStr l : is_text_list l = true -> map YStr (texts_of l) = l.
+Proof.
+  induction l as [|x l IH]; [reflexivity|]. simpl. intro H. apply andb_true_iff in H. destruct H as [Hx Hl].
+  destruct x; try discriminate. simpl. rewrite IH by exact Hl. reflexivity.
+Qed.
+Lemma omap_texts l : is_text_list l = true ->
+  omap (fun x => match x with YStr s => Some s | _ => None end) l = Some (texts_of l).
+Proof.
+  induction l as [|x l IH]; [reflexivity|]. simpl. intro H. apply andb_true_iff in H. destruct H as [Hx Hl].
+  destruct x; try discriminate. rewrite IH by exact Hl. reflexivity.
+Qed.
+Lemma tags_ok l : forallb tag_okb l = true -> is_text_list l = true /\ forallb good_tag (texts_of l) = true.
+Proof.
+  induction l as [|x l IH]; [auto|]. simpl. intro H. apply andb_true_iff in H. destruct H as [Hx Hl].
+  destruct (IH Hl) as [I1 I2]. destruct x; try discriminate. simpl. rewrite I1, I2.
+  unfold tag_okb in Hx. unfold good_tag, nonempty. split; [reflexivity|]. rewrite Hx. reflexivity.
+Qed.
+Lemma text_eqb_refl t : text_eqb t t = true.
+Proof. induction t as [|a t IH]; [reflexivity|]. simpl. rewrite Z.eqb_refl. exact IH. Qed.
+Lemma tree_eqb_textlist l : is_text_list l = true -> tree_eqb true (YList l) (YList l) = true.
+Proof.
+  intro H. simpl. induction l as [|x l IH]; [reflexivity|]. simpl in H. apply andb_true_iff in H. destruct H as [Hx Hl].
+  destruct x; try discriminate. simpl. rewrite text_eqb_refl. apply IH. exact Hl.
+Qed.
+Lemma tree_eqb_refl_typed ty v : has_type ty v = true -> tree_eqb true v v = true.
+Proof.
+  destruct v; simpl; intro H; try discriminate.
+  - apply Z.eqb_refl.
+  - apply Qeq_bool_iff. reflexivity.
+  - apply text_eqb_refl.
+  - destruct b; reflexivity.
+  - apply andb_true_iff in H. destruct H as [_ H]. apply (tree_eqb_textlist l H).
+Qed.
+
+(* ------------------------------------------------------------------ QuaMap.write, whole document *)
+Definition ref_keys : list Z := map fst ref_meta_table.
+
+Lemma all2_length {A B} (p : A -> B -> bool) a b : all2 p a b = true -> length a = length b.
+Proof.
+  revert b. induction a as [|x a IH]; destruct b as [|y b]; simpl; intro H; try discriminate; [reflexivity|].
+  apply andb_true_iff in H. destruct H as [_ H]. f_equal. apply IH. exact H.
+Qed.
+Lemma has_type_str s : has_type 0 (YStr s) = true. Proof. reflexivity. Qed.
+Ltac d21 l H := do 21 (destruct l as [|? l]; [simpl in H; discriminate|]); destruct l; [|simpl in H; discriminate].
+Local Opaque has_type tag_okb words join_sp texts_of note_denote point_denote rec_okb tree_eqb note_closeb pt_closeb hit_row_denote hold_row_denote point_row_denote.
+Theorem qua_write_ok ds c : length ds = length ref_meta_table -> wf_chartb false c = true ->
+  write_specb c (qua_write (combine ref_keys ds) c) = true.
+Proof.
+  intros Hds Hwf. unfold wf_chartb in Hwf.
+  do 4 (apply andb_true_iff in Hwf; destruct Hwf as [Hwf ?]).
+  rename Hwf into Fh, H into Hm, H0 into Fs, H1 into Fb, H2 into Fl.
+  destruct c as [fh fl fb fs m]. cbn [c_hits c_holds c_bpms c_svs c_meta] in *.
+  unfold meta_okb, ref_meta_table in Hm.
+  pose proof (all2_length _ _ _ Hm) as Lm. symmetry in Lm.
+  d21 m Lm. d21 ds Hds. clear Lm Hds.
+  cbn [all2 fst snd] in Hm. unfold ref_tags_key, K_InitialScrollVelocity in Hm. cbn [Z.eqb Pos.eqb andb orb] in Hm.
+
+  cbn [all2 fst snd] in Hm. unfold ref_tags_key, K_InitialScrollVelocity in Hm. cbn [Z.eqb Pos.eqb andb orb] in Hm.
+  rewrite !orb_false_r in Hm.
+  repeat (apply andb_true_iff in Hm; let T := fresh "T" in destruct Hm as [T Hm]).
+  destruct y13 as [| | | | | |lt|]; try discriminate T13.
+  destruct (tags_ok lt T13) as [Tl Tg].
+  destruct (hits_to_yaml_ok fh Fh) as [h [Eh [Oh [nh [nh' [Dh [Dh' Ch]]]]]]].
+  destruct (holds_to_yaml_ok fl Fl) as [l [El [Ol [nl [nl' [Dl [Dl' Cl]]]]]]].
+  destruct (bpms_to_yaml_ok fb Fb) as [b [Eb [Ob [pb [pb' [Db [Db' Cb]]]]]]].
+  destruct (svs_to_yaml_ok fs Fs) as [s [Es [Os [ps [ps' [Dsv [Dsv' Cs]]]]]]].
+  unfold qua_write. cbn [c_hits c_holds c_bpms c_svs c_meta]. rewrite Eb, Es, Eh, El.
+  unfold write_meta, ref_keys, ref_meta_table. cbn [map fst combine length Nat.eqb negb omap K_Tags Z.eqb Pos.eqb].
+  rewrite (omap_texts lt Tl). cbn [bind].
+  unfold write_specb.
+  assert (CD: chart_denote {| c_hits := fh; c_holds := fl; c_bpms := fb; c_svs := fs;
+                              c_meta := [y; y0; y1; y2; y3; y4; y5; y6; y7; y8; y9; y10; y11; y12; YList lt; y14; y15; y16; y17; y18; y19] |}
+              = Some (mkDen (nh' ++ nl') pb' ps' (map Some [y; y0; y1; y2; y3; y4; y5; y6; y7; y8; y9; y10; y11; y12; YList lt; y14; y15; y16; y17; y18; y19]))).
+  { unfold chart_denote. cbn [c_hits c_holds c_bpms c_svs c_meta]. rewrite Dh', Dl', Db', Dsv'. reflexivity. }
+  rewrite CD. clear CD.
+  set (d := YMap _).
+  assert (QD: qua_denote d = Some (mkDen (nh ++ nl) pb ps (map Some [y; y0; y1; y2; y3; y4; y5; y6; y7; y8; y9; y10; y11; y12; YList lt; y14; y15; y16; y17; y18; y19]))).
+  { subst d. unfold qua_denote, section_denote, meta_denote, ref_meta_table, ref_tags_key, K_HitObjects, K_TimingPoints, K_SliderVelocities. simpl. rewrite map_app.
+    match goal with |- context [omap note_denote ?t] => replace (omap note_denote t) with (Some (nh ++ nl)) by (symmetry; apply omap_app; assumption) end.
+    rewrite Db, Dsv.
+    rewrite T, T0, T1, T2, T3, T4, T5, T6, T7, T8, T9, T10, T11, T12, T14, T15, T16, T17, T18, T19.
+    rewrite (words_join _ Tg), (texts_map_YStr lt Tl). reflexivity. }
+  rewrite QD. clear QD.
+  apply andb_true_iff. split; [|apply andb_true_iff; split].
+  - subst d. unfold wf_qua_docb, section_okb, sections, ref_meta_table, K_HitObjects, K_TimingPoints, K_SliderVelocities. simpl.
+    rewrite T, T0, T1, T2, T3, T4, T5, T6, T7, T8, T9, T10, T11, T12, T14, T15, T16, T17, T18, T19, has_type_str.
+    rewrite Ob, Os. simpl.
+    match goal with |- context [forallb (rec_okb note_keys) ?t] => replace (forallb (rec_okb note_keys) t) with true end; [reflexivity|].
+    symmetry. rewrite map_app, forallb_app. change (forallb (rec_okb note_keys) (map YMap h) && forallb (rec_okb note_keys) (map YMap l) = true).
+    rewrite Oh, Ol. reflexivity.
+  - unfold den_closeb. cbn [d_notes d_bpms d_svs d_meta]. rewrite (all2_app _ _ _ _ _ Ch Cl), Cb, Cs.
+    unfold meta_refinesb, ref_meta_table, ref_tags_key. simpl.
+    rewrite (tree_eqb_refl_typed _ _ T), (tree_eqb_refl_typed _ _ T0), (tree_eqb_refl_typed _ _ T1), (tree_eqb_refl_typed _ _ T2),
+      (tree_eqb_refl_typed _ _ T3), (tree_eqb_refl_typed _ _ T4), (tree_eqb_refl_typed _ _ T5), (tree_eqb_refl_typed _ _ T6),
+      (tree_eqb_refl_typed _ _ T7), (tree_eqb_refl_typed _ _ T8), (tree_eqb_refl_typed _ _ T9), (tree_eqb_refl_typed _ _ T10),
+      (tree_eqb_refl_typed _ _ T11), (tree_eqb_refl_typed _ _ T12), (tree_eqb_textlist lt Tl), (tree_eqb_refl_typed _ _ T14),
+      (tree_eqb_refl_typed _ _ T15), (tree_eqb_refl_typed _ _ T16), (tree_eqb_refl_typed _ _ T17), (tree_eqb_refl_typed _ _ T18),
+      (tree_eqb_refl_typed _ _ T19). reflexivity.
+  - reflexivity.
+Qed.
+Local Transparent has_type tag_okb words join_sp texts_of note_denote point_denote rec_okb tree_eqb note_closeb pt_closeb hit_row_denote hold_row_denote point_row_denote.
+
+(* the same for the writer instantiated with the live default table *)
+Theorem qua_write_live_ok c : wf_chartb false c = true -> write_specb c (Live.write c) = true.
+Proof.
+  intro H. unfold Live.write.
+  assert (E: Live.meta_defaults = combine ref_keys (map snd Live.meta_defaults)) by (vm_compute; reflexivity).
+  rewrite E. apply qua_write_ok; [vm_compute; reflexivity|exact H].
+Qed.
+(* QuaMap.write of a strict chart: a well-formed document that denotes the chart with every time moved by < 1 ms *)
+Theorem qua_write_wf_denotes c : wf_chartb false c = true -> WriteSpec c (Live.write c).
+Proof. intro H. apply write_specb_sound. apply qua_write_live_ok. exact H. Qed.
+
+(* ################################################################## READER *)
+(* ---- multiset equality by removal: two sufficient conditions ---- *)
+Lemma perm_eqb_Forall2 {A} (eqb : A -> A -> bool) e a :
+  Forall2 (fun x y => eqb x y = true) e a -> perm_eqb eqb e a = true.
+Proof. induction 1 as [|x y e a H _ IH]; [reflexivity|]. simpl. rewrite H. exact IH. Qed.
+
+Lemma remove1_skip {A} (eqb : A -> A -> bool) x a1 y a2 :
+  (forall z, In z a1 -> eqb x z = false) -> eqb x y = true -> remove1 eqb x (a1 ++ y :: a2) = Some (a1 ++ a2).
+Proof.
+  intros H E. induction a1 as [|z a1 IH]; simpl; [rewrite E; reflexivity|].
+  rewrite (H z (or_introl eq_refl)). rewrite IH; [reflexivity|]. intros w Hw. apply H. right. exact Hw.
+Qed.
+
+Lemma perm_eqb_two_classes {A} (eqb : A -> A -> bool) (cls : A -> bool) e a1 a2 :
+  Forall2 (fun x y => eqb x y = true) (filter cls e) a1 ->
+  Forall2 (fun x y => eqb x y = true) (filter (fun x => negb (cls x)) e) a2 ->
+  (forall x z, In x e -> cls x = false -> In z a1 -> eqb x z = false) ->
+  perm_eqb eqb e (a1 ++ a2) = true.
+Proof.
+  revert a1 a2. induction e as [|x e IH]; intros a1 a2 H1 H2 Hsep; simpl in *.
+  - inversion H1; inversion H2; subst. reflexivity.
+  - destruct (cls x) eqn:C; simpl in *.
+    + inversion H1 as [|? y ? a1' E H1']; subst. simpl. rewrite E.
+      apply IH; [exact H1'|exact H2|]. intros x0 z Hx0 Cx0 Hz. apply Hsep; auto. right. exact Hz.
+    + inversion H2 as [|? y ? a2' E H2']; subst.
+      rewrite (remove1_skip eqb x a1 y a2'); [|intros z Hz; apply Hsep; auto|exact E].
+      apply IH; [exact H1|exact H2'|]. intros x0 z Hx0 Cx0 Hz. apply Hsep; auto.
+Qed.
+
+(* ---- timing points and scroll velocities ---- *)
+Lemma pt_eqb_refl p : pt_eqb p p = true.
+Proof. unfold pt_eqb. apply andb_true_iff. split; apply Qeq_bool_iff; reflexivity. Qed.
+Lemma Forall2_refl {A} (R : A -> A -> Prop) l : (forall x, R x x) -> Forall2 R l l.
+Proof. intro H. induction l; constructor; auto. Qed.
+
+Lemma read_bpms_denote cols recs ps : omap (point_denote K_Bpm 120%Q) (map YMap recs) = Some ps ->
+  omap (point_row_denote N_bpm) (f_rows (read_bpms cols recs)) = Some ps.
+Proof.
+  destruct recs as [|r0 recs0]; [simpl; auto|]. set (recs := r0 :: recs0). intro H.
+  change (f_rows (read_bpms cols recs)) with
+    (map (fun r => [(N_offset, getd K_StartTime (YInt 0) r); (N_bpm, getd K_Bpm (YInt 120) r); (N_metronome, YInt 4)]) recs).
+  clearbody recs. revert ps H. induction recs as [|r recs IH]; intros ps H; [exact H|].
+  cbn [map omap] in H. destruct (point_denote K_Bpm 120%Q (YMap r)) as [p|] eqn:E; [|discriminate].
+  destruct (omap (point_denote K_Bpm 120%Q) (map YMap recs)) as [t|] eqn:E2; [|discriminate]. inversion H; subst.
+  cbn [map omap]. rewrite (read_bpm_row_denotes r p E). rewrite (IH t eq_refl). reflexivity.
+Qed.
+Lemma read_svs_denote cols recs ps : omap (point_denote K_Multiplier 1%Q) (map YMap recs) = Some ps ->
+  omap (point_row_denote N_multiplier) (f_rows (read_svs cols recs)) = Some ps.
+Proof.
+  destruct recs as [|r0 recs0]; [simpl; auto|]. set (recs := r0 :: recs0). intro H.
+  change (f_rows (read_svs cols recs)) with
+    (map (fun r => [(N_offset, getd K_StartTime (YInt 0) r); (N_multiplier, getd K_Multiplier (YFloat 1) r)]) recs).
+  clearbody recs. revert ps H. induction recs as [|r recs IH]; intros ps H; [exact H|].
+  cbn [map omap] in H. destruct (point_denote K_Multiplier 1%Q (YMap r)) as [p|] eqn:E; [|discriminate].
+  destruct (omap (point_denote K_Multiplier 1%Q) (map YMap recs)) as [t|] eqn:E2; [|discriminate]. inversion H; subst.
+  cbn [map omap]. rewrite (read_sv_row_denotes r p E). rewrite (IH t eq_refl). reflexivity.
+Qed.
+
+(* ---- metadata ---- *)
+Definition meta_decl1 (d : row) (kt : Z * Z) : option (option ytree) :=
+  let '(k, ty) := kt in
+  match assoc k d with
+  | None => Some None
+  | Some v => if k =? ref_tags_key then
+                match v with YStr s => Some (Some (YList (map YStr (words s)))) | _ => None end
+              else if has_type ty v then Some (Some v) else None
+  end.
+Definition read_meta1 (d : row) (kd : Z * ytree) : option ytree :=
+  let '(k, dflt) := kd in
+  if k =? K_Tags then
+    match assoc k d with
+    | None => Some (YList [])
+    | Some (YStr s) => Some (YList (map YStr (tags_of s)))
+    | Some _ => None
+    end
+  else Some (getd k dflt d).
+Definition refine1 (kt : Z * Z) (da : option ytree * option ytree) : bool :=
+  let '(d, a) := da in
+  match d, a with
+  | Some v, Some w => tree_eqb true v w
+  | None, Some w => has_type (if fst kt =? ref_tags_key then 4 else snd kt) w
+  | _, None => false
+  end.
+Lemma meta_denote_unfold d : meta_denote d = omap (meta_decl1 d) ref_meta_table. Proof. reflexivity. Qed.
+Lemma read_meta_unfold md d : read_meta md d = omap (read_meta1 d) md. Proof. reflexivity. Qed.
+Lemma meta_refinesb_unfold dc ac : meta_refinesb dc ac =
+  all2 refine1 ref_meta_table (combine dc ac) && Nat.eqb (length dc) (length ref_meta_table) && Nat.eqb (length ac) (length ref_meta_table).
+Proof. reflexivity. Qed.
+
+Lemma is_text_list_map_YStr ws : is_text_list (map YStr ws) = true.
+Proof. induction ws; simpl; auto. Qed.
+
+Lemma meta_read_ok tbl md d d' decl :
+  (forall k, In k (map fst tbl) -> assoc k d' = assoc k d) ->
+  all2 (fun kt kd => (fst kt =? fst kd) && has_type (if fst kt =? ref_tags_key then 4 else snd kt) (snd kd)) tbl md = true ->
+  omap (meta_decl1 d) tbl = Some decl ->
+  exists act, omap (read_meta1 d') md = Some act /\ all2 refine1 tbl (combine decl (map Some act)) = true /\
+              length act = length tbl /\ length decl = length tbl.
+Proof.
+  revert md decl. induction tbl as [|[k ty] tbl IH]; intros md decl Hd Hall Hdec.
+  - destruct md; [|discriminate]. inversion Hdec; subst. exists []. auto.
+  - destruct md as [|[k' dflt] md]; [discriminate|]. cbn [all2 fst snd] in Hall.
+    apply andb_true_iff in Hall. destruct Hall as [Hk Hall]. apply andb_true_iff in Hk. destruct Hk as [Ek Hty].
+    apply Z.eqb_eq in Ek. subst k'.
+    cbn [omap] in Hdec. destruct (meta_decl1 d (k, ty)) as [dk|] eqn:E1; [|discriminate].
+    destruct (omap (meta_decl1 d) tbl) as [dt|] eqn:E2; [|discriminate]. inversion Hdec; subst decl. clear Hdec.
+    destruct (IH md dt) as [at_ [A1 [A2 [A3 A4]]]]; [intros k0 Hk0; apply Hd; right; exact Hk0|exact Hall|reflexivity|].
+    assert (Ea: assoc k d' = assoc k d) by (apply Hd; left; reflexivity).
+    unfold meta_decl1 in E1. unfold ref_tags_key in *.
+    assert (X: exists a, read_meta1 d' (k, dflt) = Some a /\ refine1 (k, ty) (dk, Some a) = true).
+    { unfold read_meta1, K_Tags, getd, refine1, ref_tags_key. cbn [fst snd]. rewrite Ea.
+      destruct (assoc k d) as [v|].
+      - destruct (k =? 115) eqn:Et.
+        + destruct v; try discriminate. inversion E1; subst dk. eexists. split; [reflexivity|].
+          rewrite tags_of_is_words. apply tree_eqb_textlist. apply is_text_list_map_YStr.
+        + destruct (has_type ty v) eqn:Hv; [|discriminate]. inversion E1; subst dk. exists v. split; [reflexivity|].
+          apply (tree_eqb_refl_typed ty v Hv).
+      - inversion E1; subst dk. destruct (k =? 115) eqn:Et.
+        + eexists. split; reflexivity.
+        + exists dflt. split; [reflexivity|exact Hty]. }
+    destruct X as [a [Xa Xr]].
+    exists (a :: at_). cbn [omap]. rewrite Xa, A1. cbn [map combine all2 length]. rewrite Xr, A2, A3, A4. auto.
+Qed.
+
+(* ---- frames in explicit form: every row lists the columns [cols] (named by [kn]) with cells [f c r] ---- *)
+Definition rowK (kn : Z -> Z) (f : Z -> row -> ytree) (cols : list Z) (r : row) : row := map (fun c => (kn c, f c r)) cols.
+Definition frameK kn f cols recs : frame := mkFrame (map kn cols) (map (rowK kn f cols) recs).
+Definition upd_f (kn : Z -> Z) (k : Z) (g' : ytree -> ytree) (f : Z -> row -> ytree) : Z -> row -> ytree :=
+  fun c r => if kn c =? k then g' (f c r) else f c r.
+
+Lemma row_upd_rowK kn f cols r k g g' :
+  (forall c, In c cols -> kn c = k -> g (f c r) = Some (g' (f c r))) ->
+  row_upd k g (rowK kn f cols r) = Some (rowK kn (upd_f kn k g' f) cols r).
+Proof.
+  unfold rowK, upd_f. induction cols as [|c cols IH]; intro H; [reflexivity|]. cbn [map row_upd].
+  rewrite IH by (intros c' Hc'; apply H; right; exact Hc').
+  destruct (kn c =? k) eqn:E.
+  - apply Z.eqb_eq in E. rewrite (H c (or_introl eq_refl) E). reflexivity.
+  - reflexivity.
+Qed.
+Lemma fr_map_col_frameK kn f cols recs k g g' :
+  In k (map kn cols) ->
+  (forall r c, In r recs -> In c cols -> kn c = k -> g (f c r) = Some (g' (f c r))) ->
+  fr_map_col k g (frameK kn f cols recs) = Some (frameK kn (upd_f kn k g' f) cols recs).
+Proof.
+  intros Hk Hg. unfold frameK. rewrite fr_map_col_rows by (apply memZ_In; exact Hk). cbn [f_rows f_cols].
+  rewrite omap_map. rewrite (omap_some_map _ (rowK kn (upd_f kn k g' f) cols)).
+  - reflexivity.
+  - intros r Hr. apply row_upd_rowK. intros c Hc E. apply Hg; assumption.
+Qed.
+Lemma fr_rename_frameK R kn f cols recs :
+  fr_rename R (frameK kn f cols recs) = frameK (fun c => ren1 R (kn c)) f cols recs.
+Proof.
+  unfold fr_rename, frameK, rowK. cbn [f_cols f_rows]. rewrite !map_map. f_equal.
+  apply map_ext. intro r. rewrite map_map. reflexivity.
+Qed.
+Lemma fr_require_frameK_id req f cols recs :
+  (forall r c, In r recs -> In c req -> ~ In c cols -> f c r = YNaN) ->
+  fr_require req (frameK (fun c => c) f cols recs)
+  = frameK (fun c => c) f (cols ++ filter (fun c => negb (memZ c cols)) req) recs.
+Proof.
+  intro H. unfold fr_require, frameK. cbn [f_cols f_rows]. rewrite !map_id. f_equal.
+  rewrite map_map. apply map_ext_in. intros r Hr. unfold rowK. rewrite map_app. f_equal.
+  apply map_ext_in. intros c Hc. apply filter_In in Hc. destruct Hc as [Hc Hn].
+  rewrite H; auto. intro X. apply memZ_In in X. rewrite X in Hn. discriminate.
+Qed.
+Lemma fr_require_noop req f : (forall c, In c req -> In c (f_cols f)) -> fr_require req f = f.
+Proof.
+  intro H. unfold fr_require.
+  assert (E: filter (fun c => negb (memZ c (f_cols f))) req = []).
+  { induction req as [|c req IH]; [reflexivity|]. simpl.
+    assert (M: memZ c (f_cols f) = true) by (apply memZ_In; apply H; left; reflexivity). rewrite M. simpl.
+    apply IH. intros c' Hc'. apply H. right. exact Hc'. }
+  rewrite E. rewrite app_nil_r. destruct f as [cols rows]. cbn [f_cols f_rows]. f_equal.
+  rewrite <- (map_id rows) at 2. apply map_ext. intro r. apply app_nil_r.
+Qed.
+Lemma assoc_rowK kn f cols r c :
+  In c cols -> (forall c', In c' cols -> kn c' = kn c -> c' = c) -> assoc (kn c) (rowK kn f cols r) = Some (f c r).
+Proof.
+  unfold rowK. induction cols as [|c0 cols IH]; intros Hin Hinj; [contradiction|]. cbn [map assoc].
+  destruct (kn c =? kn c0) eqn:E.
+  - apply Z.eqb_eq in E. symmetry in E. apply (Hinj c0 (or_introl eq_refl)) in E. subst. reflexivity.
+  - destruct Hin as [->|Hin]; [rewrite Z.eqb_refl in E; discriminate|].
+    apply IH; [exact Hin|]. intros c' Hc'. apply Hinj. right. exact Hc'.
+Qed.
+
+(* pd.DataFrame(dicts) in explicit form *)
+Definition getNaN (c : Z) (r : row) : ytree := match assoc c r with Some v => v | None => YNaN end.
+Definition promo (fl : list Z) (c : Z) (v : ytree) : ytree :=
+  match v with YInt z => if memZ c fl then YFloat (inject_Z z) else v | _ => v end.
+Lemma fr_of_dicts_frameK recs : exists fl,
+  fr_of_dicts recs = frameK (fun c => c) (fun c r => promo fl c (getNaN c r)) (keys_union recs) recs.
+Proof.
+  unfold fr_of_dicts, promote. set (cols := keys_union recs).
+  exists (filter (fun c => col_floats c (map (row_on cols) recs)) cols).
+  unfold frameK. rewrite map_id. f_equal. rewrite map_map. apply map_ext. intro r.
+  unfold row_on, rowK. rewrite map_map. apply map_ext. intro c. cbn [fst snd]. unfold promo, getNaN.
+  destruct (assoc c r) as [v|]; [|reflexivity]. destruct v; try reflexivity.
+  destruct (memZ c _); reflexivity.
+Qed.
+
+(* ---- keys_union ---- *)
+Lemma dedup_spec l : forall seen x, In x (dedup l seen) <-> In x l /\ ~ In x seen.
+Proof.
+  induction l as [|y l IH]; intros seen x; simpl; [tauto|].
+  destruct (memZ y seen) eqn:M.
+  - rewrite IH. apply memZ_In in M. split; [tauto|]. intros [[->|H] N]; [contradiction|tauto].
+  - assert (Ny: ~ In y seen) by (intro X; apply memZ_In in X; congruence).
+    simpl. rewrite IH. simpl. split.
+    + intros [->|[H N]]; [tauto|]. split; [tauto|]. intro X. apply N. right. exact X.
+    + intros [[->|H] N]; [tauto|]. destruct (Z.eq_dec y x) as [->|Ne]; [tauto|]. right. split; [exact H|]. intros [X|X]; [contradiction|tauto].
+Qed.
+Lemma dedup_NoDup l : forall seen, NoDup (dedup l seen).
+Proof.
+  induction l as [|y l IH]; intro seen; simpl; [constructor|]. destruct (memZ y seen); [apply IH|].
+  constructor; [|apply IH]. intro X. apply dedup_spec in X. destruct X as [_ N]. apply N. left. reflexivity.
+Qed.
+Lemma keys_union_In recs c : In c (keys_union recs) <-> exists r, In r recs /\ In c (map fst r).
+Proof.
+  unfold keys_union. rewrite dedup_spec. split.
+  - intros [H _]. apply in_concat in H. destruct H as [ks [Hks Hc]]. apply in_map_iff in Hks. destruct Hks as [r [<- Hr]]. eauto.
+  - intros [r [Hr Hc]]. split; [|tauto]. apply in_concat. exists (map fst r). split; [apply in_map; exact Hr|exact Hc].
+Qed.
+Lemma NoDup_app_disj (a b : list Z) : NoDup a -> NoDup b -> (forall x, In x a -> ~ In x b) -> NoDup (a ++ b).
+Proof.
+  intros Ha Hb D. induction Ha as [|x a Hx Ha IH]; [exact Hb|]. simpl. constructor.
+  - intro X. apply in_app_or in X. destruct X as [X|X]; [contradiction|]. apply (D x (or_introl eq_refl) X).
+  - apply IH. intros y Hy. apply D. right. exact Hy.
+Qed.
+Lemma assoc_None_notin {A} k (l : list (Z * A)) : ~ In k (map fst l) -> assoc k l = None.
+Proof. intro H. apply assoc_notin. destruct (memZ k (map fst l)) eqn:E; [apply memZ_In in E; contradiction|reflexivity]. Qed.
+
+(* columns after reindexing with the required raw keys *)
+Definition with_req (req cols : list Z) : list Z := cols ++ filter (fun c => negb (memZ c cols)) req.
+Lemma with_req_In req cols c : In c (with_req req cols) <-> In c cols \/ In c req.
+Proof.
+  unfold with_req. rewrite in_app_iff, filter_In. split.
+  - intros [H|[H _]]; auto.
+  - intros [H|H]; [auto|]. destruct (memZ c cols) eqn:M; [left; apply memZ_In; exact M|right; auto].
+Qed.
+Lemma with_req_NoDup req cols : NoDup cols -> NoDup req -> NoDup (with_req req cols).
+Proof.
+  intros Hc Hr. apply NoDup_app_disj; [exact Hc|apply NoDup_filter; exact Hr|].
+  intros x Hx X. apply filter_In in X. destruct X as [_ X]. apply memZ_In in Hx. rewrite Hx in X. discriminate.
+Qed.
+
+(* total versions of the cell functions on the values that occur *)
+Definition fill0 (v : ytree) : ytree := fillna (YInt 0) v.
+Definition fill1 (v : ytree) : ytree := fillna (YInt 1) v.
+Definition ks_fix' (v : ytree) : ytree := match v with YList _ => v | _ => YList [] end.
+Definition minus1' (v : ytree) : ytree :=
+  match v with YInt z => YInt (z + - (1)) | YFloat q => YFloat (Qred (q + inject_Z (- (1)))) | _ => v end.
+Lemma minus1_total v : is_num v = true -> minus1 v = Some (minus1' v).
+Proof. destruct v; try discriminate; reflexivity. Qed.
+
+(* ---- QuaHitList.from_yaml in explicit form ---- *)
+Definition idk (c : Z) : Z := c.
+Definition RH : list (Z * Z) := [(K_StartTime, N_offset); (K_Lane, N_column); (K_KeySounds, N_keysounds)].
+Definition renH (c : Z) : Z := ren1 RH (idk c).
+Definition reqH : list Z := [K_StartTime; K_Lane; K_KeySounds].
+Definition fH (fl : list Z) : Z -> row -> ytree :=
+  upd_f renH N_column fill0 (upd_f renH N_offset fill0 (upd_f renH N_column minus1'
+    (upd_f idk K_KeySounds ks_fix' (upd_f idk K_Lane fill1 (upd_f idk K_StartTime fill0
+       (fun c r => promo fl c (getNaN c r))))))).
+
+Lemma fH_start fl r : fH fl K_StartTime r = fill0 (fill0 (promo fl K_StartTime (getNaN K_StartTime r))). Proof. reflexivity. Qed.
+Lemma fH_lane fl r : fH fl K_Lane r = fill0 (minus1' (fill1 (promo fl K_Lane (getNaN K_Lane r)))). Proof. reflexivity. Qed.
+Lemma fH_ks fl r : fH fl K_KeySounds r = ks_fix' (promo fl K_KeySounds (getNaN K_KeySounds r)). Proof. reflexivity. Qed.
+
+Definition lane_typed (r : row) : Prop := assoc K_Lane r = None \/ exists z, assoc K_Lane r = Some (YInt z).
+
+Lemma in_req_cols req recs c : In c req -> In c (with_req req (keys_union recs)).
+Proof. intro H. apply with_req_In. right. exact H. Qed.
+
+Definition keys124 (recs : list row) : Prop :=
+  forall r c, In r recs -> In c (map fst r) -> c = K_StartTime \/ c = K_Lane \/ c = K_KeySounds.
+Lemma C1_keys recs c : keys124 recs -> In c (with_req reqH (keys_union recs)) -> c = K_StartTime \/ c = K_Lane \/ c = K_KeySounds.
+Proof.
+  intros Hk H. apply with_req_In in H. destruct H as [H|H].
+  - apply keys_union_In in H. destruct H as [r [Hr Hc]]. exact (Hk r c Hr Hc).
+  - simpl in H. destruct H as [<-|[<-|[<-|[]]]]; auto.
+Qed.
+
+Lemma hits_from_yaml_explicit recs :
+  keys124 recs -> (forall r, In r recs -> lane_typed r) ->
+  exists fl, hits_from_yaml recs = Some (frameK renH (fH fl) (with_req reqH (keys_union recs)) recs).
+Proof.
+  intros Hk Hl. unfold hits_from_yaml. destruct (fr_of_dicts_frameK recs) as [fl E]. exists fl. rewrite E.
+  change (fun c : Z => c) with idk.
+  rewrite (fr_require_frameK_id [K_StartTime; K_Lane; K_KeySounds]).
+  2:{ intros r c Hr _ Hn. unfold getNaN. rewrite assoc_None_notin; [reflexivity|].
+      intro X. apply Hn. apply keys_union_In. exists r. auto. }
+  fold reqH. fold (with_req reqH (keys_union recs)). set (C1 := with_req reqH (keys_union recs)).
+  assert (I1: In K_StartTime C1) by (apply in_req_cols; simpl; auto).
+  assert (I2: In K_Lane C1) by (apply in_req_cols; simpl; auto).
+  assert (I4: In K_KeySounds C1) by (apply in_req_cols; simpl; auto).
+  rewrite (fr_map_col_frameK idk _ C1 recs K_StartTime (some_fill (YInt 0)) fill0); [|rewrite map_id; exact I1|reflexivity]. cbn [bind].
+  rewrite (fr_map_col_frameK idk _ C1 recs K_Lane (some_fill (YInt 1)) fill1); [|rewrite map_id; exact I2|reflexivity]. cbn [bind].
+  rewrite (fr_map_col_frameK idk _ C1 recs K_KeySounds ks_fix ks_fix'); [|rewrite map_id; exact I4|reflexivity]. cbn [bind].
+  rewrite fr_rename_frameK. fold RH. change (fun c : Z => ren1 RH (idk c)) with renH.
+  rewrite (fr_map_col_frameK renH _ C1 recs N_column minus1 minus1').
+  2:{ change N_column with (renH K_Lane). apply in_map. exact I2. }
+  2:{ intros r c Hr Hc Ec. apply minus1_total.
+      assert (c = K_Lane).
+      { destruct (C1_keys recs c Hk Hc) as [ -> | [ -> | -> ] ]; [discriminate Ec|reflexivity|discriminate Ec]. }
+      subst c. unfold upd_f, idk. cbn [Z.eqb K_Lane K_StartTime K_KeySounds Pos.eqb].
+      unfold getNaN, promo. destruct (Hl r Hr) as [En|[z Ez]]; [rewrite En; reflexivity|rewrite Ez].
+      destruct (memZ K_Lane fl); reflexivity. }
+  cbn [bind].
+  rewrite fr_require_noop.
+  2:{ intros c Hc. unfold frameK. cbn [f_cols]. simpl in Hc. destruct Hc as [<-|[<-|[<-|[]]]].
+      - change N_offset with (renH K_StartTime). apply in_map. exact I1.
+      - change N_column with (renH K_Lane). apply in_map. exact I2.
+      - change N_keysounds with (renH K_KeySounds). apply in_map. exact I4. }
+  rewrite (fr_map_col_frameK renH _ C1 recs N_offset (some_fill (YInt 0)) fill0);
+    [|change N_offset with (renH K_StartTime); apply in_map; exact I1|reflexivity]. cbn [bind].
+  rewrite (fr_map_col_frameK renH _ C1 recs N_column (some_fill (YInt 0)) fill0);
+    [|change N_column with (renH K_Lane); apply in_map; exact I2|reflexivity].
+  reflexivity.
+Qed.
+
+Definition hit_rec_typed (r : row) : Prop :=
+  NoDup (map fst r) /\
+  forall k v, In (k, v) r -> (k = K_StartTime /\ is_int v = true) \/ (k = K_Lane /\ is_lane v = true) \/ (k = K_KeySounds /\ is_ks v = true).
+
+Lemma assoc_cases {A} k (l : list (Z * A)) : assoc k l = None \/ exists v, assoc k l = Some v /\ In (k, v) l.
+Proof. destruct (assoc k l) as [v|] eqn:E; [right; exists v; split; [reflexivity|apply assoc_In; exact E]|left; reflexivity]. Qed.
+
+Lemma hit_typed_start r : hit_rec_typed r -> assoc K_StartTime r = None \/ exists z, assoc K_StartTime r = Some (YInt z).
+Proof.
+  intros [_ T]. destruct (assoc_cases K_StartTime r) as [E|[v [E Hin]]]; [auto|right].
+  destruct (T _ _ Hin) as [[_ H]|[[X _]|[X _]]]; try discriminate X. destruct v; try discriminate. eauto.
+Qed.
+Lemma hit_typed_lane r : hit_rec_typed r -> assoc K_Lane r = None \/ exists z, assoc K_Lane r = Some (YInt z) /\ 1 <= z.
+Proof.
+  intros [_ T]. destruct (assoc_cases K_Lane r) as [E|[v [E Hin]]]; [auto|right].
+  destruct (T _ _ Hin) as [[X _]|[[_ H]|[X _]]]; try discriminate X. destruct v; try discriminate. exists z. split; [exact E|].
+  simpl in H. apply Z.leb_le. exact H.
+Qed.
+Lemma hit_typed_ks r : hit_rec_typed r -> assoc K_KeySounds r = None \/ exists l, assoc K_KeySounds r = Some (YList l) /\ is_text_list l = true.
+Proof.
+  intros [_ T]. destruct (assoc_cases K_KeySounds r) as [E|[v [E Hin]]]; [auto|right].
+  destruct (T _ _ Hin) as [[X _]|[[X _]|[_ H]]]; try discriminate X. destruct v; try discriminate. eauto.
+Qed.
+Lemma hit_typed_noend r : hit_rec_typed r -> assoc K_EndTime r = None.
+Proof.
+  intros [_ T]. destruct (assoc_cases K_EndTime r) as [E|[v [E Hin]]]; [exact E|].
+  destruct (T _ _ Hin) as [[X _]|[[X _]|[X _]]]; discriminate X.
+Qed.
+Lemma hit_typed_keys recs : Forall hit_rec_typed recs -> keys124 recs.
+Proof.
+  intros H r c Hr Hc. rewrite Forall_forall in H. destruct (H r Hr) as [_ T].
+  apply in_map_iff in Hc. destruct Hc as [[k v] [<- Hin]]. destruct (T _ _ Hin) as [[X _]|[[X _]|[X _]]]; auto.
+Qed.
+
+Lemma lane_of_float_int q z : (q == inject_Z z)%Q -> lane_of (YFloat q) = Some (z + 1).
+Proof.
+  intro E. unfold lane_of. assert (F: Qfloor q = z) by (rewrite (Qfloor_comp _ _ E); apply Qfloor_Z).
+  rewrite F. assert (B: Qeq_bool q (inject_Z z) = true) by (apply Qeq_bool_iff; exact E). rewrite B. reflexivity.
+Qed.
+
+(* the three cells of a row read from a typed hit record *)
+Lemma fH_start_ok fl r : hit_rec_typed r ->
+  exists q, num (fH fl K_StartTime r) = Some q /\ get_default K_StartTime r num 0%Q = Some q.
+Proof.
+  intro T. rewrite fH_start. unfold get_default, getNaN, promo.
+  destruct (hit_typed_start r T) as [E|[z E]]; rewrite E.
+  - exists 0%Q. split; reflexivity.
+  - exists (inject_Z z). destruct (memZ K_StartTime fl); split; reflexivity.
+Qed.
+Lemma fH_lane_ok fl r : hit_rec_typed r ->
+  exists l, lane_of (fH fl K_Lane r) = Some l /\ get_default K_Lane r int_of 1 = Some l /\ 1 <= l.
+Proof.
+  intro T. rewrite fH_lane. unfold get_default, getNaN, promo.
+  destruct (hit_typed_lane r T) as [E|[z [E Hz]]]; rewrite E.
+  - exists 1. split; [reflexivity|split; [reflexivity|lia]].
+  - exists z. destruct (memZ K_Lane fl).
+    + cbn [fill1 fillna minus1' fill0]. split; [|split; [reflexivity|exact Hz]].
+      replace z with (z - 1 + 1) at 2 by lia. apply lane_of_float_int.
+      rewrite Qred_correct. rewrite <- inject_Z_plus. replace (z + - (1)) with (z - 1) by lia. reflexivity.
+    + cbn [fill1 fillna minus1' fill0 lane_of int_of]. split; [f_equal; lia|split; [reflexivity|exact Hz]].
+Qed.
+Lemma fH_ks_ok fl r : hit_rec_typed r ->
+  exists ks, ks_of (fH fl K_KeySounds r) = Some ks /\ get_default K_KeySounds r ks_of [] = Some ks /\ cell_ks false (fH fl K_KeySounds r) = true.
+Proof.
+  intro T. rewrite fH_ks. unfold get_default, getNaN, promo.
+  destruct (hit_typed_ks r T) as [E|[l [E Hl]]]; rewrite E.
+  - exists []. repeat split; reflexivity.
+  - exists (texts_of l). cbn [ks_fix' ks_of cell_ks]. rewrite Hl. repeat split; reflexivity.
+Qed.
+
+Lemma listZ_eqb_refl l : listZ_eqb l l = true.
+Proof. induction l as [|x l IH]; [reflexivity|]. simpl. rewrite Z.eqb_refl. exact IH. Qed.
+Lemma rowK_keys kn f cols r : map fst (rowK kn f cols r) = map kn cols.
+Proof. unfold rowK. rewrite map_map. reflexivity. Qed.
+Lemma note_eqb_refl n : note_eqb n n = true.
+Proof.
+  unfold note_eqb. rewrite Z.eqb_refl, texts_eqb_refl.
+  assert (A: Qeq_bool (n_start n) (n_start n) = true) by (apply Qeq_bool_iff; reflexivity). rewrite A.
+  destruct (n_end n); simpl; [|reflexivity]. assert (B: Qeq_bool q q = true) by (apply Qeq_bool_iff; reflexivity). rewrite B. reflexivity.
+Qed.
+
+Lemma renH_inj a b : (a = K_StartTime \/ a = K_Lane \/ a = K_KeySounds) -> (b = K_StartTime \/ b = K_Lane \/ b = K_KeySounds) ->
+  renH a = renH b -> a = b.
+Proof. intros [ -> | [ -> | -> ] ] [ -> | [ -> | -> ] ]; cbv; intro X; try reflexivity; discriminate. Qed.
+
+Lemma omap_same {A B} (f g : A -> option B) l :
+  (forall x, In x l -> exists n, f x = Some n /\ g x = Some n) -> exists ns, omap f l = Some ns /\ omap g l = Some ns.
+Proof.
+  induction l as [|x l IH]; intro H; [exists []; auto|].
+  destruct (H x (or_introl eq_refl)) as [n [E1 E2]]. destruct IH as [ns [E3 E4]]; [intros y Hy; apply H; right; exact Hy|].
+  exists (n :: ns). cbn [omap]. rewrite E1, E2, E3, E4. auto.
+Qed.
+
+Theorem hits_from_yaml_ok recs : Forall hit_rec_typed recs ->
+  exists fr, hits_from_yaml recs = Some fr /\ frame_okb (hit_decl false) false fr = true /\
+    exists ns, omap hit_row_denote (f_rows fr) = Some ns /\ omap note_denote (map YMap recs) = Some ns.
+Proof.
+  intro HT. pose proof (hit_typed_keys recs HT) as Hk. rewrite Forall_forall in HT.
+  destruct (hits_from_yaml_explicit recs Hk) as [fl E].
+  { intros r Hr. destruct (hit_typed_lane r (HT r Hr)) as [X|[z [X _]]]; [left; exact X|right; eauto]. }
+  set (C1 := with_req reqH (keys_union recs)) in *.
+  assert (ND: NoDup C1).
+  { apply with_req_NoDup; [apply dedup_NoDup|]. repeat constructor; simpl; intuition discriminate. }
+  assert (I1: In K_StartTime C1) by (apply in_req_cols; simpl; auto).
+  assert (I2: In K_Lane C1) by (apply in_req_cols; simpl; auto).
+  assert (I4: In K_KeySounds C1) by (apply in_req_cols; simpl; auto).
+  assert (CK: forall c, In c C1 -> c = K_StartTime \/ c = K_Lane \/ c = K_KeySounds) by (intros c Hc; exact (C1_keys recs c Hk Hc)).
+  exists (frameK renH (fH fl) C1 recs). split; [exact E|]. split.
+  - unfold frame_okb, frameK. cbn [f_cols f_rows]. apply andb_true_iff; split; [apply andb_true_iff; split; [apply andb_true_iff; split|]|].
+    + apply nodupZ_map_inj; [|apply nodupZ_NoDup; exact ND]. intros a b Ha Hb. apply renH_inj; apply CK; assumption.
+    + apply forallb_forall. intros c Hc. apply memZ_In. simpl in Hc. destruct Hc as [<-|[<-|[<-|[]]]].
+      * change N_offset with (renH K_StartTime). apply in_map. exact I1.
+      * change N_column with (renH K_Lane). apply in_map. exact I2.
+      * change N_keysounds with (renH K_KeySounds). apply in_map. exact I4.
+    + apply forallb_forall. intros c' Hc'. apply in_map_iff in Hc'. destruct Hc' as [c [<- Hc]].
+      destruct (CK c Hc) as [ -> | [ -> | -> ] ]; reflexivity.
+    + apply forallb_forall. intros row Hrow. apply in_map_iff in Hrow. destruct Hrow as [r [<- Hr]].
+      rewrite rowK_keys, listZ_eqb_refl. cbn [andb]. unfold rowK. apply forallb_forall. intros [k v] Hin.
+      apply in_map_iff in Hin. destruct Hin as [c [Ec Hc]]. inversion Ec; subst k v. clear Ec. cbn [fst snd].
+      pose proof (HT r Hr) as Tr.
+      destruct (CK c Hc) as [ -> | [ -> | -> ] ].
+      * change (is_num (fH fl K_StartTime r) = true). destruct (fH_start_ok fl r Tr) as [q [Eq _]].
+        destruct (fH fl K_StartTime r); try discriminate Eq; reflexivity.
+      * change (cell_col (fH fl K_Lane r) = true). destruct (fH_lane_ok fl r Tr) as [l [El [_ Hl]]]. unfold cell_col. rewrite El.
+        apply Z.leb_le. exact Hl.
+      * change (cell_ks false (fH fl K_KeySounds r) = true). destruct (fH_ks_ok fl r Tr) as [ks [_ [_ X]]]. exact X.
+  - unfold frameK. cbn [f_rows]. rewrite !omap_map.
+    assert (P: forall r, In r recs -> exists n, hit_row_denote (rowK renH (fH fl) C1 r) = Some n /\ note_denote (YMap r) = Some n).
+    { intros r Hr. pose proof (HT r Hr) as Tr.
+      destruct (fH_start_ok fl r Tr) as [q [Q1 Q2]]. destruct (fH_lane_ok fl r Tr) as [l [L1 [L2 _]]]. destruct (fH_ks_ok fl r Tr) as [ks [K1 [K2 _]]].
+      exists (mkNote l q None ks). split.
+      - unfold hit_row_denote.
+        change N_offset with (renH K_StartTime). rewrite (assoc_rowK renH (fH fl) C1 r K_StartTime I1) by (intros c' Hc' X; apply renH_inj; auto).
+        change N_column with (renH K_Lane). rewrite (assoc_rowK renH (fH fl) C1 r K_Lane I2) by (intros c' Hc' X; apply renH_inj; auto).
+        change N_keysounds with (renH K_KeySounds). rewrite (assoc_rowK renH (fH fl) C1 r K_KeySounds I4) by (intros c' Hc' X; apply renH_inj; auto).
+        rewrite Q1, L1, K1. reflexivity.
+      - unfold note_denote. rewrite Q2, L2, K2, (hit_typed_noend r Tr). reflexivity. }
+    apply omap_same. exact P.
+Qed.
+
+(* ---- QuaHoldList.from_yaml in explicit form ---- *)
+Definition sub' (a b : ytree) : ytree := match cell_sub a b with Some v => v | None => YNull end.
+Definition set_len (f : Z -> row -> ytree) : Z -> row -> ytree :=
+  fun c r => if c =? K_EndTime then sub' (f K_EndTime r) (f K_StartTime r) else f c r.
+
+Lemma row_const_upd f cols r k v :
+  row_upd k (fun _ => Some v) (rowK idk f cols r) = Some (rowK idk (fun c r' => if c =? k then v else f c r') cols r).
+Proof.
+  unfold rowK, idk. induction cols as [|c cols IH]; [reflexivity|]. cbn [map row_upd]. rewrite IH.
+  destruct (c =? k); reflexivity.
+Qed.
+Lemma fr_set_len_frameK f cols recs :
+  In K_EndTime cols -> In K_StartTime cols ->
+  (forall r, In r recs -> exists v, cell_sub (f K_EndTime r) (f K_StartTime r) = Some v) ->
+  fr_set_col K_EndTime (fun r => match assoc K_EndTime r, assoc K_StartTime r with
+                                 | Some e, Some s => cell_sub e s | _, _ => None end) (frameK idk f cols recs)
+  = Some (frameK idk (set_len f) cols recs).
+Proof.
+  intros Ie Is Hv. unfold fr_set_col, frameK. cbn [f_rows f_cols].
+  assert (Hh: fr_has K_EndTime {| f_cols := map idk cols; f_rows := map (rowK idk f cols) recs |} = true).
+  { apply memZ_In. cbn [f_cols]. unfold idk. rewrite map_id. exact Ie. }
+  rewrite Hh. rewrite omap_map. rewrite (omap_some_map _ (rowK idk (set_len f) cols)); [reflexivity|].
+  intros r Hr.
+  change K_EndTime with (idk K_EndTime) at 1. rewrite (assoc_rowK idk f cols r K_EndTime Ie) by (intros; assumption).
+  change K_StartTime with (idk K_StartTime) at 1. rewrite (assoc_rowK idk f cols r K_StartTime Is) by (intros; assumption).
+  destruct (Hv r Hr) as [v Ev]. rewrite Ev.
+  assert (Hk: has_key K_EndTime (rowK idk f cols r) = true).
+  { unfold has_key. change K_EndTime with (idk K_EndTime) at 1. rewrite (assoc_rowK idk f cols r K_EndTime Ie) by (intros; assumption). reflexivity. }
+  rewrite Hk. rewrite row_const_upd. f_equal. unfold rowK. apply map_ext. intro c. unfold set_len, sub'.
+  destruct (c =? K_EndTime); [rewrite Ev|]; reflexivity.
+Qed.
+
+Definition RL : list (Z * Z) := [(K_StartTime, N_offset); (K_Lane, N_column); (K_KeySounds, N_keysounds); (K_EndTime, N_length)].
+Definition renL (c : Z) : Z := ren1 RL (idk c).
+Definition reqL : list Z := [K_StartTime; K_Lane; K_KeySounds; K_EndTime].
+Definition fL (fl : list Z) : Z -> row -> ytree :=
+  upd_f renL N_length fill0 (upd_f renL N_column fill0 (upd_f renL N_offset fill0 (upd_f renL N_column minus1'
+    (set_len (upd_f idk K_KeySounds ks_fix' (upd_f idk K_Lane fill1 (upd_f idk K_StartTime fill0
+       (fun c r => promo fl c (getNaN c r))))))))).
+Lemma fL_start fl r : fL fl K_StartTime r = fill0 (fill0 (promo fl K_StartTime (getNaN K_StartTime r))). Proof. reflexivity. Qed.
+Lemma fL_lane fl r : fL fl K_Lane r = fill0 (minus1' (fill1 (promo fl K_Lane (getNaN K_Lane r)))). Proof. reflexivity. Qed.
+Lemma fL_ks fl r : fL fl K_KeySounds r = ks_fix' (promo fl K_KeySounds (getNaN K_KeySounds r)). Proof. reflexivity. Qed.
+Lemma fL_len fl r : fL fl K_EndTime r =
+  fill0 (sub' (promo fl K_EndTime (getNaN K_EndTime r)) (fill0 (promo fl K_StartTime (getNaN K_StartTime r)))). Proof. reflexivity. Qed.
+
+Definition keys1234 (recs : list row) : Prop :=
+  forall r c, In r recs -> In c (map fst r) -> c = K_StartTime \/ c = K_Lane \/ c = K_KeySounds \/ c = K_EndTime.
+Lemma CL_keys recs c : keys1234 recs -> In c (with_req reqL (keys_union recs)) ->
+  c = K_StartTime \/ c = K_Lane \/ c = K_KeySounds \/ c = K_EndTime.
+Proof.
+  intros Hk H. apply with_req_In in H. destruct H as [H|H].
+  - apply keys_union_In in H. destruct H as [r [Hr Hc]]. exact (Hk r c Hr Hc).
+  - simpl in H. destruct H as [<-|[<-|[<-|[<-|[]]]]]; auto.
+Qed.
+Definition start_typed (r : row) : Prop := assoc K_StartTime r = None \/ exists z, assoc K_StartTime r = Some (YInt z).
+Definition end_typed (r : row) : Prop := exists z, assoc K_EndTime r = Some (YInt z).
+
+Lemma holds_from_yaml_explicit recs :
+  keys1234 recs -> (forall r, In r recs -> lane_typed r /\ start_typed r /\ end_typed r) ->
+  exists fl, holds_from_yaml recs = Some (frameK renL (fL fl) (with_req reqL (keys_union recs)) recs).
+Proof.
+  intros Hk Hl. unfold holds_from_yaml. destruct (fr_of_dicts_frameK recs) as [fl E]. exists fl. rewrite E.
+  change (fun c : Z => c) with idk.
+  rewrite (fr_require_frameK_id [K_StartTime; K_Lane; K_KeySounds; K_EndTime]).
+  2:{ intros r c Hr _ Hn. unfold getNaN. rewrite assoc_None_notin; [reflexivity|].
+      intro X. apply Hn. apply keys_union_In. exists r. auto. }
+  fold reqL. fold (with_req reqL (keys_union recs)). set (C1 := with_req reqL (keys_union recs)).
+  assert (I1: In K_StartTime C1) by (apply in_req_cols; simpl; auto).
+  assert (I2: In K_Lane C1) by (apply in_req_cols; simpl; auto).
+  assert (I4: In K_KeySounds C1) by (apply in_req_cols; simpl; auto).
+  assert (I3: In K_EndTime C1) by (apply in_req_cols; simpl; auto 6).
+  rewrite (fr_map_col_frameK idk _ C1 recs K_StartTime (some_fill (YInt 0)) fill0); [|unfold idk; rewrite map_id; exact I1|reflexivity]. cbn [bind].
+  rewrite (fr_map_col_frameK idk _ C1 recs K_Lane (some_fill (YInt 1)) fill1); [|unfold idk; rewrite map_id; exact I2|reflexivity]. cbn [bind].
+  rewrite (fr_map_col_frameK idk _ C1 recs K_KeySounds ks_fix ks_fix'); [|unfold idk; rewrite map_id; exact I4|reflexivity]. cbn [bind].
+  rewrite fr_set_len_frameK; [|exact I3|exact I1|].
+  2:{ intros r Hr. destruct (Hl r Hr) as [_ [Hs [ze He]]].
+      unfold upd_f, idk. cbn [Z.eqb K_Lane K_StartTime K_KeySounds K_EndTime Pos.eqb]. unfold getNaN, promo. rewrite He.
+      destruct Hs as [Es|[zs Es]]; rewrite Es; destruct (memZ K_EndTime fl); try destruct (memZ K_StartTime fl); cbn; eauto. }
+  cbn [bind].
+  rewrite fr_rename_frameK. fold RL. change (fun c : Z => ren1 RL (idk c)) with renL.
+  rewrite (fr_map_col_frameK renL _ C1 recs N_column minus1 minus1').
+  2:{ change N_column with (renL K_Lane). apply in_map. exact I2. }
+  2:{ intros r c Hr Hc Ec. apply minus1_total.
+      assert (c = K_Lane).
+      { destruct (CL_keys recs c Hk Hc) as [ -> | [ -> | [ -> | -> ] ] ]; [discriminate Ec|reflexivity|discriminate Ec|discriminate Ec]. }
+      subst c. unfold set_len, upd_f, idk. cbn [Z.eqb K_Lane K_StartTime K_KeySounds K_EndTime Pos.eqb].
+      unfold getNaN, promo. destruct (Hl r Hr) as [[En|[z Ez]] _]; [rewrite En; reflexivity|rewrite Ez].
+      destruct (memZ K_Lane fl); reflexivity. }
+  cbn [bind].
+  rewrite fr_require_noop.
+  2:{ intros c Hc. unfold frameK. cbn [f_cols]. simpl in Hc. destruct Hc as [<-|[<-|[<-|[<-|[]]]]].
+      - change N_offset with (renL K_StartTime). apply in_map. exact I1.
+      - change N_column with (renL K_Lane). apply in_map. exact I2.
+      - change N_keysounds with (renL K_KeySounds). apply in_map. exact I4.
+      - change N_length with (renL K_EndTime). apply in_map. exact I3. }
+  rewrite (fr_map_col_frameK renL _ C1 recs N_offset (some_fill (YInt 0)) fill0);
+    [|change N_offset with (renL K_StartTime); apply in_map; exact I1|reflexivity]. cbn [bind].
+  rewrite (fr_map_col_frameK renL _ C1 recs N_column (some_fill (YInt 0)) fill0);
+    [|change N_column with (renL K_Lane); apply in_map; exact I2|reflexivity]. cbn [bind].
+  rewrite (fr_map_col_frameK renL _ C1 recs N_length (some_fill (YInt 0)) fill0);
+    [|change N_length with (renL K_EndTime); apply in_map; exact I3|reflexivity].
+  reflexivity.
+Qed.
+
+Definition hold_rec_typed (r : row) : Prop :=
+  NoDup (map fst r) /\
+  (forall k v, In (k, v) r -> (k = K_StartTime /\ is_int v = true) \/ (k = K_Lane /\ is_lane v = true) \/
+                              (k = K_KeySounds /\ is_ks v = true) \/ (k = K_EndTime /\ is_int v = true)) /\
+  exists v, assoc K_EndTime r = Some v.
+
+Lemma hold_typed_start r : hold_rec_typed r -> assoc K_StartTime r = None \/ exists z, assoc K_StartTime r = Some (YInt z).
+Proof.
+  intros [_ [T _]]. destruct (assoc_cases K_StartTime r) as [E|[v [E Hin]]]; [auto|right].
+  destruct (T _ _ Hin) as [[_ H]|[[X _]|[[X _]|[X _]]]]; try discriminate X. destruct v; try discriminate. eauto.
+Qed.
+Lemma hold_typed_lane r : hold_rec_typed r -> assoc K_Lane r = None \/ exists z, assoc K_Lane r = Some (YInt z) /\ 1 <= z.
+Proof.
+  intros [_ [T _]]. destruct (assoc_cases K_Lane r) as [E|[v [E Hin]]]; [auto|right].
+  destruct (T _ _ Hin) as [[X _]|[[_ H]|[[X _]|[X _]]]]; try discriminate X. destruct v; try discriminate. exists z. split; [exact E|].
+  simpl in H. apply Z.leb_le. exact H.
+Qed.
+Lemma hold_typed_ks r : hold_rec_typed r -> assoc K_KeySounds r = None \/ exists l, assoc K_KeySounds r = Some (YList l) /\ is_text_list l = true.
+Proof.
+  intros [_ [T _]]. destruct (assoc_cases K_KeySounds r) as [E|[v [E Hin]]]; [auto|right].
+  destruct (T _ _ Hin) as [[X _]|[[X _]|[[_ H]|[X _]]]]; try discriminate X. destruct v; try discriminate. eauto.
+Qed.
+Lemma hold_typed_end r : hold_rec_typed r -> exists z, assoc K_EndTime r = Some (YInt z).
+Proof.
+  intros [_ [T [v E]]]. pose proof (assoc_In _ _ _ E) as Hin.
+  destruct (T _ _ Hin) as [[X _]|[[X _]|[[X _]|[_ H]]]]; try discriminate X. destruct v; try discriminate. eauto.
+Qed.
+Lemma hold_typed_keys recs : Forall hold_rec_typed recs -> keys1234 recs.
+Proof.
+  intros H r c Hr Hc. rewrite Forall_forall in H. destruct (H r Hr) as [_ [T _]].
+  apply in_map_iff in Hc. destruct Hc as [[k v] [<- Hin]]. destruct (T _ _ Hin) as [[X _]|[[X _]|[[X _]|[X _]]]]; auto.
+Qed.
+
+Lemma fL_start_ok fl r : hold_rec_typed r ->
+  exists q, num (fL fl K_StartTime r) = Some q /\ get_default K_StartTime r num 0%Q = Some q.
+Proof.
+  intro T. rewrite fL_start. unfold get_default, getNaN, promo.
+  destruct (hold_typed_start r T) as [E|[z E]]; rewrite E.
+  - exists 0%Q. split; reflexivity.
+  - exists (inject_Z z). destruct (memZ K_StartTime fl); split; reflexivity.
+Qed.
+Lemma fL_lane_ok fl r : hold_rec_typed r ->
+  exists l, lane_of (fL fl K_Lane r) = Some l /\ get_default K_Lane r int_of 1 = Some l /\ 1 <= l.
+Proof.
+  intro T. rewrite fL_lane. unfold get_default, getNaN, promo.
+  destruct (hold_typed_lane r T) as [E|[z [E Hz]]]; rewrite E.
+  - exists 1. split; [reflexivity|split; [reflexivity|lia]].
+  - exists z. destruct (memZ K_Lane fl).
+    + cbn [fill1 fillna minus1' fill0]. split; [|split; [reflexivity|exact Hz]].
+      replace z with (z - 1 + 1) at 2 by lia. apply lane_of_float_int.
+      rewrite Qred_correct. rewrite <- inject_Z_plus. replace (z + - (1)) with (z - 1) by lia. reflexivity.
+    + cbn [fill1 fillna minus1' fill0 lane_of int_of]. split; [f_equal; lia|split; [reflexivity|exact Hz]].
+Qed.
+Lemma fL_ks_ok fl r : hold_rec_typed r ->
+  exists ks, ks_of (fL fl K_KeySounds r) = Some ks /\ get_default K_KeySounds r ks_of [] = Some ks /\ cell_ks false (fL fl K_KeySounds r) = true.
+Proof.
+  intro T. rewrite fL_ks. unfold get_default, getNaN, promo.
+  destruct (hold_typed_ks r T) as [E|[l [E Hl]]]; rewrite E.
+  - exists []. repeat split; reflexivity.
+  - exists (texts_of l). cbn [ks_fix' ks_of cell_ks]. rewrite Hl. repeat split; reflexivity.
+Qed.
+(* the length cell: the offset plus the length is the declared end time *)
+Lemma fL_len_ok fl r qs : hold_rec_typed r -> num (fL fl K_StartTime r) = Some qs ->
+  exists ql ze, num (fL fl K_EndTime r) = Some ql /\ assoc K_EndTime r = Some (YInt ze) /\ (Qred (qs + ql) == inject_Z ze)%Q.
+Proof.
+  intros T Hs. destruct (hold_typed_end r T) as [ze Ee]. rewrite fL_start in Hs. rewrite fL_len.
+  unfold getNaN, promo in *. rewrite Ee.
+  destruct (hold_typed_start r T) as [E|[z E]]; rewrite E in *.
+  - cbn [fill0 fillna num] in Hs. inversion Hs; subst qs.
+    destruct (memZ K_EndTime fl); cbn [fill0 fillna sub' cell_sub cell_neg cell_add num]; eexists; exists ze; (split; [reflexivity|split; [reflexivity|]]);
+      rewrite ?Qred_correct, ?inject_Z_plus, ?inject_Z_opp; change (inject_Z 0) with 0%Q; rewrite ?Qred_correct; ring.
+  - destruct (memZ K_StartTime fl); cbn [fill0 fillna num] in Hs; inversion Hs; subst qs;
+      destruct (memZ K_EndTime fl); cbn [fill0 fillna sub' cell_sub cell_neg cell_add num]; eexists; exists ze; (split; [reflexivity|split; [reflexivity|]]);
+      rewrite ?Qred_correct, ?inject_Z_plus, ?inject_Z_opp; rewrite ?Qred_correct; ring.
+Qed.
+
+Lemma renL_inj a b : (a = K_StartTime \/ a = K_Lane \/ a = K_KeySounds \/ a = K_EndTime) ->
+  (b = K_StartTime \/ b = K_Lane \/ b = K_KeySounds \/ b = K_EndTime) -> renL a = renL b -> a = b.
+Proof. intros [ -> | [ -> | [ -> | -> ] ] ] [ -> | [ -> | [ -> | -> ] ] ]; cbv; intro X; try reflexivity; discriminate. Qed.
+Lemma omap_rel {A B} (f g : A -> option B) (R : B -> B -> Prop) l :
+  (forall x, In x l -> exists n n', f x = Some n /\ g x = Some n' /\ R n' n) ->
+  exists ns es, omap f l = Some ns /\ omap g l = Some es /\ Forall2 R es ns.
+Proof.
+  induction l as [|x l IH]; intro H; [exists [], []; auto|].
+  destruct (H x (or_introl eq_refl)) as [n [n' [E1 [E2 E3]]]]. destruct IH as [ns [es [E4 [E5 E6]]]]; [intros y Hy; apply H; right; exact Hy|].
+  exists (n :: ns), (n' :: es). cbn [omap]. rewrite E1, E2, E4, E5. auto.
+Qed.
+
+Theorem holds_from_yaml_ok recs : Forall hold_rec_typed recs ->
+  exists fr, holds_from_yaml recs = Some fr /\ frame_okb (hold_decl false) false fr = true /\
+    exists ns es, omap hold_row_denote (f_rows fr) = Some ns /\ omap note_denote (map YMap recs) = Some es /\
+                  Forall2 (fun x y => note_eqb x y = true) es ns.
+Proof.
+  intro HT. pose proof (hold_typed_keys recs HT) as Hk. rewrite Forall_forall in HT.
+  destruct (holds_from_yaml_explicit recs Hk) as [fl E].
+  { intros r Hr. pose proof (HT r Hr) as Tr. split; [|split].
+    - destruct (hold_typed_lane r Tr) as [X|[z [X _]]]; [left; exact X|right; eauto].
+    - exact (hold_typed_start r Tr).
+    - exact (hold_typed_end r Tr). }
+  set (C1 := with_req reqL (keys_union recs)) in *.
+  assert (ND: NoDup C1).
+  { apply with_req_NoDup; [apply dedup_NoDup|]. repeat constructor; simpl; intuition discriminate. }
+  assert (I1: In K_StartTime C1) by (apply in_req_cols; simpl; auto).
+  assert (I2: In K_Lane C1) by (apply in_req_cols; simpl; auto).
+  assert (I4: In K_KeySounds C1) by (apply in_req_cols; simpl; auto).
+  assert (I3: In K_EndTime C1) by (apply in_req_cols; simpl; auto 6).
+  assert (CK: forall c, In c C1 -> c = K_StartTime \/ c = K_Lane \/ c = K_KeySounds \/ c = K_EndTime) by (intros c Hc; exact (CL_keys recs c Hk Hc)).
+  exists (frameK renL (fL fl) C1 recs). split; [exact E|]. split.
+  - unfold frame_okb, frameK. cbn [f_cols f_rows]. apply andb_true_iff; split; [apply andb_true_iff; split; [apply andb_true_iff; split|]|].
+    + apply nodupZ_map_inj; [|apply nodupZ_NoDup; exact ND]. intros a b Ha Hb. apply renL_inj; apply CK; assumption.
+    + apply forallb_forall. intros c Hc. apply memZ_In. simpl in Hc. destruct Hc as [<-|[<-|[<-|[<-|[]]]]].
+      * change N_offset with (renL K_StartTime). apply in_map. exact I1.
+      * change N_column with (renL K_Lane). apply in_map. exact I2.
+      * change N_keysounds with (renL K_KeySounds). apply in_map. exact I4.
+      * change N_length with (renL K_EndTime). apply in_map. exact I3.
+    + apply forallb_forall. intros c' Hc'. apply in_map_iff in Hc'. destruct Hc' as [c [<- Hc]].
+      destruct (CK c Hc) as [ -> | [ -> | [ -> | -> ] ] ]; reflexivity.
+    + apply forallb_forall. intros row Hrow. apply in_map_iff in Hrow. destruct Hrow as [r [<- Hr]].
+      rewrite rowK_keys, listZ_eqb_refl. cbn [andb]. unfold rowK. apply forallb_forall. intros [k v] Hin.
+      apply in_map_iff in Hin. destruct Hin as [c [Ec Hc]]. inversion Ec; subst k v. clear Ec. cbn [fst snd].
+      pose proof (HT r Hr) as Tr.
+      destruct (CK c Hc) as [ -> | [ -> | [ -> | -> ] ] ].
+      * change (is_num (fL fl K_StartTime r) = true). destruct (fL_start_ok fl r Tr) as [q [Eq _]].
+        destruct (fL fl K_StartTime r); try discriminate Eq; reflexivity.
+      * change (cell_col (fL fl K_Lane r) = true). destruct (fL_lane_ok fl r Tr) as [l [El [_ Hl]]]. unfold cell_col. rewrite El.
+        apply Z.leb_le. exact Hl.
+      * change (cell_ks false (fL fl K_KeySounds r) = true). destruct (fL_ks_ok fl r Tr) as [ks [_ [_ X]]]. exact X.
+      * change (is_num (fL fl K_EndTime r) = true). destruct (fL_start_ok fl r Tr) as [q [Eq _]].
+        destruct (fL_len_ok fl r q Tr Eq) as [ql [ze [El _]]]. destruct (fL fl K_EndTime r); try discriminate El; reflexivity.
+  - unfold frameK. cbn [f_rows]. rewrite !omap_map.
+    apply omap_rel. intros r Hr. pose proof (HT r Hr) as Tr.
+    destruct (fL_start_ok fl r Tr) as [q [Q1 Q2]]. destruct (fL_lane_ok fl r Tr) as [l [L1 [L2 _]]]. destruct (fL_ks_ok fl r Tr) as [ks [K1 [K2 _]]].
+    destruct (fL_len_ok fl r q Tr Q1) as [ql [ze [E1 [E2 E3]]]].
+    exists (mkNote l q (Some (Qred (q + ql))) ks), (mkNote l q (Some (inject_Z ze)) ks). split; [|split].
+    + unfold hold_row_denote.
+      change N_offset with (renL K_StartTime). rewrite (assoc_rowK renL (fL fl) C1 r K_StartTime I1) by (intros c' Hc' X; apply renL_inj; auto).
+      change N_column with (renL K_Lane). rewrite (assoc_rowK renL (fL fl) C1 r K_Lane I2) by (intros c' Hc' X; apply renL_inj; auto).
+      change N_keysounds with (renL K_KeySounds). rewrite (assoc_rowK renL (fL fl) C1 r K_KeySounds I4) by (intros c' Hc' X; apply renL_inj; auto).
+      change N_length with (renL K_EndTime). rewrite (assoc_rowK renL (fL fl) C1 r K_EndTime I3) by (intros c' Hc' X; apply renL_inj; auto 6).
+      rewrite Q1, L1, K1, E1. reflexivity.
+    + unfold note_denote. rewrite Q2, L2, K2, E2. reflexivity.
+    + unfold note_eqb. cbn [n_lane n_start n_end n_ks oq_eqb]. rewrite Z.eqb_refl, texts_eqb_refl.
+      assert (A: Qeq_bool q q = true) by (apply Qeq_bool_iff; reflexivity). rewrite A.
+      assert (B: Qeq_bool (inject_Z ze) (Qred (q + ql)) = true) by (apply Qeq_bool_iff; symmetry; exact E3). rewrite B. reflexivity.
+Qed.
